@@ -12,7 +12,7 @@ abbrev I := AbsVal.input
 abbrev F := AbsVal.fresh
 abbrev B := AbsVal.both
 
-/-- `is_quantized_sequence` (sequences_lib.py:647)  params: note_sequence
+/-- `is_quantized_sequence` (sequences_lib.py:637)  params: note_sequence
 variables: 0=note_sequence
 -/
 def op_is_quantized_sequence (ix : Nat → Nat) : OpDef := ⟨"is_quantized_sequence", 1,
@@ -21,57 +21,45 @@ def op_is_quantized_sequence (ix : Nat → Nat) : OpDef := ⟨"is_quantized_sequ
     .ret .scalar]⟩
 def ct_is_quantized_sequence : Contract := ⟨[B], N⟩
 
-/-- `_copy_note_sequence` (sequences_lib.py:89)  params: sequence
-variables: 0=sequence 1=sequence_copy
--/
-def op__copy_note_sequence (ix : Nat → Nat) : OpDef := ⟨"_copy_note_sequence", 1,
-  .block [
-    .assign 0 (.param 0),
-    .assign 1 .fresh,
-    .write 92 (.var 1),
-    .ret (.var 1)]⟩
-def ct__copy_note_sequence : Contract := ⟨[B], F⟩
-
-/-- `trim_note_sequence` (sequences_lib.py:105)  params: sequence, start_time, end_time
-variables: 0=sequence 1=start_time 2=end_time 3=note 4=starts_outside_range 5=subsequence 6=trimmed_note 7=_r123 8=_r127 9=%it130_14
+/-- `trim_note_sequence` (sequences_lib.py:89)  params: sequence, start_time, end_time
+variables: 0=sequence 1=start_time 2=end_time 3=new_note 4=note 5=subsequence 6=_r107 7=%it115_14
 -/
 def op_trim_note_sequence (ix : Nat → Nat) : OpDef := ⟨"trim_note_sequence", 3,
   .block [
     .assign 0 (.param 0),
     .assign 1 (.param 1),
     .assign 2 (.param 2),
-    .callOp 123 7 (ix 0) [(.var 0)],
+    .callOp 107 6 (ix 0) [(.var 0)],
     .ite (
       .raise) (
       .skip),
-    .callOp 127 8 (ix 1) [(.var 0)],
-    .assign 5 (.var 8),
-    .write 129 (.field (.var 5)),
-    .assign 9 (.field (.var 0)),
-    .loop [B, B, B, B, N, F, F, N, F, B] (
+    .assign 5 .fresh,
+    .write 112 (.var 5),
+    .write 114 (.field (.var 5)),
+    .assign 7 (.field (.var 0)),
+    .loop [B, B, B, F, B, F, N, B] (
       .block [
-        .assign 3 (.elem (.var 9)),
-        .assign 4 .scalar,
+        .assign 4 (.elem (.var 7)),
         .ite (
+          .skip) (
           .block [
-            .write 134 (.field (.var 5)),
-            .assign 6 (.elem (.field (.var 5))),
-            .write 135 (.var 6),
-            .write 136 (.var 6)]) (
-          .skip)]),
-    .write 138 (.var 5),
+            .write 118 (.field (.var 5)),
+            .assign 3 (.elem (.field (.var 5))),
+            .write 119 (.var 3),
+            .write 120 (.var 3)])]),
+    .write 122 (.var 5),
     .ret (.var 5)]⟩
 def ct_trim_note_sequence : Contract := ⟨[B, B, B], F⟩
 
-/-- `_extract_subsequences` (sequences_lib.py:150)  params: sequence, split_times, preserve_control_numbers
-variables: 0=sequence 1=split_times 2=preserve_control_numbers 3=containers 4=event 5=events 6=events_by_type 7=new_event_containers 8=new_stateless_event_containers 9=note 10=pedal_event 11=pedal_events 12=previous_event 13=previous_pedal_event 14=previous_pedal_events 15=start_time 16=stateless_events_by_type 17=subsequence 18=subsequence_index 19=subsequences 20=_r175 21=_acc181 22=t1@181 23=t2@181 24=%it181_31 25=_acc183 26=time@183 27=%it183_49 28=_r189 29=_acc201 30=_@201 31=%it201_42 32=note@key207 33=%it207_14 34=_acc232 35=annotation@232 36=%it232_39 37=_acc237 38=s@237 39=%it237_54 40=_acc238 41=s@238 42=%it238_53 43=_acc239 44=s@239 45=%it239_45 46=_acc240 47=s@240 48=%it240_55 49=%it242_28 50=event@key245 51=%it245_17 52=_acc276 53=annotation@276 54=%it276_35 55=_acc280 56=s@280 57=%it280_65 58=%it281_28 59=event@key284 60=%it284_17 61=_acc298 62=cc@298 63=%it298_19 64=event@key304 65=%it304_21 66=_t306 67=%it315_34 68=_t327 69=%it333_32 70=%it339_33
+/-- `_extract_subsequences` (sequences_lib.py:134)  params: sequence, split_times, preserve_control_numbers
+variables: 0=sequence 1=split_times 2=preserve_control_numbers 3=containers 4=event 5=events 6=events_by_type 7=new_event_containers 8=new_stateless_event_containers 9=note 10=pedal_event 11=pedal_events 12=previous_event 13=previous_pedal_event 14=previous_pedal_events 15=start_time 16=stateless_events_by_type 17=subsequence 18=subsequence_index 19=subsequences 20=_r159 21=_acc165 22=t1@165 23=t2@165 24=%it165_31 25=_acc167 26=time@167 27=%it167_49 28=_acc186 29=_@186 30=%it186_42 31=note@key192 32=%it192_14 33=_acc217 34=annotation@217 35=%it217_39 36=_acc222 37=s@222 38=%it222_54 39=_acc223 40=s@223 41=%it223_53 42=_acc224 43=s@224 44=%it224_45 45=_acc225 46=s@225 47=%it225_55 48=%it227_28 49=event@key230 50=%it230_17 51=_acc261 52=annotation@261 53=%it261_35 54=_acc265 55=s@265 56=%it265_65 57=%it266_28 58=event@key269 59=%it269_17 60=_acc283 61=cc@283 62=%it283_19 63=event@key289 64=%it289_21 65=_t291 66=%it300_34 67=_t312 68=%it318_32 69=%it324_33
 -/
 def op__extract_subsequences (ix : Nat → Nat) : OpDef := ⟨"_extract_subsequences", 3,
   .block [
     .assign 0 (.param 0),
     .assign 1 (.param 1),
     .assign 2 (.param 2),
-    .callOp 175 20 (ix 0) [(.var 0)],
+    .callOp 159 20 (ix 0) [(.var 0)],
     .ite (
       .raise) (
       .skip),
@@ -97,210 +85,210 @@ def op__extract_subsequences (ix : Nat → Nat) : OpDef := ⟨"_extract_subseque
     .ite (
       .assign 2 .scalar) (
       .skip),
-    .callOp 189 28 (ix 1) [(.var 0)],
-    .assign 17 (.var 28),
-    .write 191 (.var 17),
-    .write 193 (.field (.var 17)),
-    .write 194 (.field (.var 17)),
-    .write 195 (.field (.var 17)),
-    .write 196 (.field (.var 17)),
-    .write 197 (.field (.var 17)),
-    .write 198 (.field (.var 17)),
-    .write 199 (.field (.var 17)),
-    .assign 29 .scalar,
-    .assign 31 .scalar,
-    .loop [B, B, B, N, N, N, N, N, N, N, N, N, N, N, N, N, N, F, N, N, N, N, B, B, B, N, B, B, F, F, N, N] (
+    .assign 17 .fresh,
+    .write 174 (.var 17),
+    .write 176 (.var 17),
+    .write 178 (.field (.var 17)),
+    .write 179 (.field (.var 17)),
+    .write 180 (.field (.var 17)),
+    .write 181 (.field (.var 17)),
+    .write 182 (.field (.var 17)),
+    .write 183 (.field (.var 17)),
+    .write 184 (.field (.var 17)),
+    .assign 28 .scalar,
+    .assign 30 .scalar,
+    .loop [B, B, B, N, N, N, N, N, N, N, N, N, N, N, N, N, N, F, N, N, N, N, B, B, B, N, B, B, F, N, N] (
       .block [
-        .assign 30 (.elem (.var 31)),
-        .assign 29 (.tuple [(.var 29), (.copyOf (.var 17))])]),
-    .assign 19 (.var 29),
+        .assign 29 (.elem (.var 30)),
+        .assign 28 (.tuple [(.var 28), (.copyOf (.var 17))])]),
+    .assign 19 (.var 28),
     .assign 18 .scalar,
-    .assign 33 (.field (.var 0)),
-    .loop [B, B, B, N, N, N, N, N, N, B, N, N, N, N, N, N, N, F, N, F, N, N, B, B, B, N, B, B, F, F, N, N, N, B] (
+    .assign 32 (.field (.var 0)),
+    .loop [B, B, B, N, N, N, N, N, N, B, N, N, N, N, N, N, N, F, N, F, N, N, B, B, B, N, B, B, F, N, N, N, B] (
       .block [
-        .assign 9 (.elem (.var 33)),
+        .assign 9 (.elem (.var 32)),
         .ite (
           .skip) (
           .ite (
             .skip) (
             .block [
-              .write 215 (.field (.elem (.var 19))),
-              .write 216 (.elem (.field (.elem (.var 19)))),
-              .write 218 (.elem (.field (.elem (.var 19)))),
+              .write 200 (.field (.elem (.var 19))),
+              .write 201 (.elem (.field (.elem (.var 19)))),
+              .write 203 (.elem (.field (.elem (.var 19)))),
               .ite (
-                .write 223 (.elem (.var 19))) (
+                .write 208 (.elem (.var 19))) (
                 .skip)]))]),
-    .assign 34 .scalar,
-    .assign 36 (.field (.var 0)),
-    .loop [B, B, B, N, N, N, N, N, N, B, N, N, N, N, N, N, N, F, N, F, N, N, B, B, B, N, B, B, F, F, N, N, N, B, B, B, B] (
+    .assign 33 .scalar,
+    .assign 35 (.field (.var 0)),
+    .loop [B, B, B, N, N, N, N, N, N, B, N, N, N, N, N, N, N, F, N, F, N, N, B, B, B, N, B, B, F, N, N, N, B, B, B, B] (
       .block [
-        .assign 35 (.elem (.var 36)),
+        .assign 34 (.elem (.var 35)),
         .ite (
-          .assign 34 (.tuple [(.var 34), (.var 35)])) (
+          .assign 33 (.tuple [(.var 33), (.var 34)])) (
           .skip)]),
-    .assign 6 (.tuple [(.field (.var 0)), (.field (.var 0)), (.field (.var 0)), (.var 34)]),
-    .assign 37 .scalar,
-    .assign 39 (.var 19),
-    .loop [B, B, B, N, N, N, B, N, N, B, N, N, N, N, N, N, N, F, N, F, N, N, B, B, B, N, B, B, F, F, N, N, N, B, B, B, B, F, F, F] (
+    .assign 6 (.tuple [(.field (.var 0)), (.field (.var 0)), (.field (.var 0)), (.var 33)]),
+    .assign 36 .scalar,
+    .assign 38 (.var 19),
+    .loop [B, B, B, N, N, N, B, N, N, B, N, N, N, N, N, N, N, F, N, F, N, N, B, B, B, N, B, B, F, N, N, N, B, B, B, B, F, F, F] (
       .block [
-        .assign 38 (.elem (.var 39)),
-        .assign 37 (.tuple [(.var 37), (.field (.var 38))])]),
-    .assign 40 .scalar,
-    .assign 42 (.var 19),
-    .loop [B, B, B, N, N, N, B, N, N, B, N, N, N, N, N, N, N, F, N, F, N, N, B, B, B, N, B, B, F, F, N, N, N, B, B, B, B, F, F, F, F, F, F] (
+        .assign 37 (.elem (.var 38)),
+        .assign 36 (.tuple [(.var 36), (.field (.var 37))])]),
+    .assign 39 .scalar,
+    .assign 41 (.var 19),
+    .loop [B, B, B, N, N, N, B, N, N, B, N, N, N, N, N, N, N, F, N, F, N, N, B, B, B, N, B, B, F, N, N, N, B, B, B, B, F, F, F, F, F, F] (
       .block [
-        .assign 41 (.elem (.var 42)),
-        .assign 40 (.tuple [(.var 40), (.field (.var 41))])]),
-    .assign 43 .scalar,
-    .assign 45 (.var 19),
-    .loop [B, B, B, N, N, N, B, N, N, B, N, N, N, N, N, N, N, F, N, F, N, N, B, B, B, N, B, B, F, F, N, N, N, B, B, B, B, F, F, F, F, F, F, F, F, F] (
+        .assign 40 (.elem (.var 41)),
+        .assign 39 (.tuple [(.var 39), (.field (.var 40))])]),
+    .assign 42 .scalar,
+    .assign 44 (.var 19),
+    .loop [B, B, B, N, N, N, B, N, N, B, N, N, N, N, N, N, N, F, N, F, N, N, B, B, B, N, B, B, F, N, N, N, B, B, B, B, F, F, F, F, F, F, F, F, F] (
       .block [
-        .assign 44 (.elem (.var 45)),
-        .assign 43 (.tuple [(.var 43), (.field (.var 44))])]),
-    .assign 46 .scalar,
-    .assign 48 (.var 19),
-    .loop [B, B, B, N, N, N, B, N, N, B, N, N, N, N, N, N, N, F, N, F, N, N, B, B, B, N, B, B, F, F, N, N, N, B, B, B, B, F, F, F, F, F, F, F, F, F, F, F, F] (
+        .assign 43 (.elem (.var 44)),
+        .assign 42 (.tuple [(.var 42), (.field (.var 43))])]),
+    .assign 45 .scalar,
+    .assign 47 (.var 19),
+    .loop [B, B, B, N, N, N, B, N, N, B, N, N, N, N, N, N, N, F, N, F, N, N, B, B, B, N, B, B, F, N, N, N, B, B, B, B, F, F, F, F, F, F, F, F, F, F, F, F] (
       .block [
-        .assign 47 (.elem (.var 48)),
-        .assign 46 (.tuple [(.var 46), (.field (.var 47))])]),
-    .assign 7 (.tuple [(.var 37), (.var 40), (.var 43), (.var 46)]),
-    .assign 49 (.tuple [(.var 6), (.var 7)]),
-    .loop [B, B, B, F, B, B, B, F, N, B, N, N, B, N, N, N, N, F, N, F, N, N, B, B, B, N, B, B, F, F, N, N, N, B, B, B, B, F, F, F, F, F, F, F, F, F, F, F, F, B, N, B] (
+        .assign 46 (.elem (.var 47)),
+        .assign 45 (.tuple [(.var 45), (.field (.var 46))])]),
+    .assign 7 (.tuple [(.var 36), (.var 39), (.var 42), (.var 45)]),
+    .assign 48 (.tuple [(.var 6), (.var 7)]),
+    .loop [B, B, B, F, B, B, B, F, N, B, N, N, B, N, N, N, N, F, N, F, N, N, B, B, B, N, B, B, F, N, N, N, B, B, B, B, F, F, F, F, F, F, F, F, F, F, F, F, B, N, B] (
       .block [
         .assign 5 (.elem (.var 6)),
         .assign 3 (.elem (.var 7)),
         .assign 12 .scalar,
         .assign 18 .scalar,
-        .assign 51 (.var 5),
-        .loop [B, B, B, F, B, B, B, F, N, B, N, N, B, N, N, N, N, F, N, F, N, N, B, B, B, N, B, B, F, F, N, N, N, B, B, B, B, F, F, F, F, F, F, F, F, F, F, F, F, B, N, B] (
+        .assign 50 (.var 5),
+        .loop [B, B, B, F, B, B, B, F, N, B, N, N, B, N, N, N, N, F, N, F, N, N, B, B, B, N, B, B, F, N, N, N, B, B, B, B, F, F, F, F, F, F, F, F, F, F, F, F, B, N, B] (
           .block [
-            .assign 4 (.elem (.var 51)),
+            .assign 4 (.elem (.var 50)),
             .ite (
               .assign 12 (.var 4)) (
               .skip),
             .ite (
               .skip) (
               .block [
-                .loop [B, B, B, F, B, B, B, F, N, B, N, N, B, N, N, N, N, F, N, F, N, N, B, B, B, N, B, B, F, F, N, N, N, B, B, B, B, F, F, F, F, F, F, F, F, F, F, F, F, B, N, B] (
+                .loop [B, B, B, F, B, B, B, F, N, B, N, N, B, N, N, N, N, F, N, F, N, N, B, B, B, N, B, B, F, N, N, N, B, B, B, B, F, F, F, F, F, F, F, F, F, F, F, F, B, N, B] (
                   .ite (
                     .skip) (
                     .ite (
                       .block [
-                        .write 256 (.elem (.var 3)),
-                        .write 257 (.elem (.elem (.var 3)))]) (
+                        .write 241 (.elem (.var 3)),
+                        .write 242 (.elem (.elem (.var 3)))]) (
                       .skip))),
                 .ite (
                   .skip) (
                   .block [
                     .ite (
                       .block [
-                        .write 263 (.elem (.var 3)),
-                        .write 264 (.elem (.elem (.var 3)))]) (
+                        .write 248 (.elem (.var 3)),
+                        .write 249 (.elem (.elem (.var 3)))]) (
                       .skip),
                     .assign 12 (.var 4)])])]),
-        .loop [B, B, B, F, B, B, B, F, N, B, N, N, B, N, N, N, N, F, N, F, N, N, B, B, B, N, B, B, F, F, N, N, N, B, B, B, B, F, F, F, F, F, F, F, F, F, F, F, F, B, N, B] (
+        .loop [B, B, B, F, B, B, B, F, N, B, N, N, B, N, N, N, N, F, N, F, N, N, B, B, B, N, B, B, F, N, N, N, B, B, B, B, F, F, F, F, F, F, F, F, F, F, F, F, B, N, B] (
           .ite (
             .block [
-              .write 270 (.elem (.var 3)),
-              .write 271 (.elem (.elem (.var 3)))]) (
+              .write 255 (.elem (.var 3)),
+              .write 256 (.elem (.elem (.var 3)))]) (
             .skip))]),
-    .assign 52 .scalar,
-    .assign 54 (.field (.var 0)),
-    .loop [B, B, B, F, B, B, B, F, N, B, N, N, B, N, N, N, N, F, N, F, N, N, B, B, B, N, B, B, F, F, N, N, N, B, B, B, B, F, F, F, F, F, F, F, F, F, F, F, F, B, N, B, B, B, B] (
+    .assign 51 .scalar,
+    .assign 53 (.field (.var 0)),
+    .loop [B, B, B, F, B, B, B, F, N, B, N, N, B, N, N, N, N, F, N, F, N, N, B, B, B, N, B, B, F, N, N, N, B, B, B, B, F, F, F, F, F, F, F, F, F, F, F, F, B, N, B, B, B, B] (
       .block [
-        .assign 53 (.elem (.var 54)),
+        .assign 52 (.elem (.var 53)),
         .ite (
-          .assign 52 (.tuple [(.var 52), (.var 53)])) (
+          .assign 51 (.tuple [(.var 51), (.var 52)])) (
           .skip)]),
-    .assign 16 (.var 52),
-    .assign 55 .scalar,
-    .assign 57 (.var 19),
-    .loop [B, B, B, F, B, B, B, F, N, B, N, N, B, N, N, N, B, F, N, F, N, N, B, B, B, N, B, B, F, F, N, N, N, B, B, B, B, F, F, F, F, F, F, F, F, F, F, F, F, B, N, B, B, B, B, F, F, F] (
+    .assign 16 (.var 51),
+    .assign 54 .scalar,
+    .assign 56 (.var 19),
+    .loop [B, B, B, F, B, B, B, F, N, B, N, N, B, N, N, N, B, F, N, F, N, N, B, B, B, N, B, B, F, N, N, N, B, B, B, B, F, F, F, F, F, F, F, F, F, F, F, F, B, N, B, B, B, B, F, F, F] (
       .block [
-        .assign 56 (.elem (.var 57)),
-        .assign 55 (.tuple [(.var 55), (.field (.var 56))])]),
-    .assign 8 (.var 55),
-    .assign 58 (.tuple [(.var 16), (.var 8)]),
-    .loop [B, B, B, F, B, B, B, F, F, B, N, N, B, N, N, N, B, F, N, F, N, N, B, B, B, N, B, B, F, F, N, N, N, B, B, B, B, F, F, F, F, F, F, F, F, F, F, F, F, B, N, B, B, B, B, F, F, F, B, N, B] (
+        .assign 55 (.elem (.var 56)),
+        .assign 54 (.tuple [(.var 54), (.field (.var 55))])]),
+    .assign 8 (.var 54),
+    .assign 57 (.tuple [(.var 16), (.var 8)]),
+    .loop [B, B, B, F, B, B, B, F, F, B, N, N, B, N, N, N, B, F, N, F, N, N, B, B, B, N, B, B, F, N, N, N, B, B, B, B, F, F, F, F, F, F, F, F, F, F, F, F, B, N, B, B, B, B, F, F, F, B, N, B] (
       .block [
         .assign 5 (.elem (.var 16)),
         .assign 3 (.elem (.var 8)),
         .assign 18 .scalar,
-        .assign 60 (.var 5),
-        .loop [B, B, B, F, B, B, B, F, F, B, N, N, B, N, N, N, B, F, N, F, N, N, B, B, B, N, B, B, F, F, N, N, N, B, B, B, B, F, F, F, F, F, F, F, F, F, F, F, F, B, N, B, B, B, B, F, F, F, B, N, B] (
+        .assign 59 (.var 5),
+        .loop [B, B, B, F, B, B, B, F, F, B, N, N, B, N, N, N, B, F, N, F, N, N, B, B, B, N, B, B, F, N, N, N, B, B, B, B, F, F, F, F, F, F, F, F, F, F, F, F, B, N, B, B, B, B, F, F, F, B, N, B] (
           .block [
-            .assign 4 (.elem (.var 60)),
+            .assign 4 (.elem (.var 59)),
             .ite (
               .skip) (
               .ite (
                 .skip) (
                 .block [
-                  .write 292 (.elem (.var 3)),
-                  .write 293 (.elem (.elem (.var 3)))]))])]),
-    .assign 61 .scalar,
-    .assign 63 (.field (.var 0)),
-    .loop [B, B, B, F, B, B, B, F, F, B, N, N, B, N, N, N, B, F, N, F, N, N, B, B, B, N, B, B, F, F, N, N, N, B, B, B, B, F, F, F, F, F, F, F, F, F, F, F, F, B, N, B, B, B, B, F, F, F, B, N, B, B, B, B] (
+                  .write 277 (.elem (.var 3)),
+                  .write 278 (.elem (.elem (.var 3)))]))])]),
+    .assign 60 .scalar,
+    .assign 62 (.field (.var 0)),
+    .loop [B, B, B, F, B, B, B, F, F, B, N, N, B, N, N, N, B, F, N, F, N, N, B, B, B, N, B, B, F, N, N, N, B, B, B, B, F, F, F, F, F, F, F, F, F, F, F, F, B, N, B, B, B, B, F, F, F, B, N, B, B, B, B] (
       .block [
-        .assign 62 (.elem (.var 63)),
+        .assign 61 (.elem (.var 62)),
         .ite (
-          .assign 61 (.tuple [(.var 61), (.var 62)])) (
+          .assign 60 (.tuple [(.var 60), (.var 61)])) (
           .skip)]),
-    .assign 11 (.var 61),
+    .assign 11 (.var 60),
     .assign 14 .scalar,
     .assign 18 .scalar,
-    .assign 65 (.var 11),
-    .loop [B, B, B, F, B, B, B, F, F, B, B, B, B, B, B, N, B, F, N, F, N, N, B, B, B, N, B, B, F, F, N, N, N, B, B, B, B, F, F, F, F, F, F, F, F, F, F, F, F, B, N, B, B, B, B, F, F, F, B, N, B, B, B, B, N, B, B, B, B] (
+    .assign 64 (.var 11),
+    .loop [B, B, B, F, B, B, B, F, F, B, B, B, B, B, B, N, B, F, N, F, N, N, B, B, B, N, B, B, F, N, N, N, B, B, B, B, F, F, F, F, F, F, F, F, F, F, F, F, B, N, B, B, B, B, F, F, F, B, N, B, B, B, B, N, B, B, B, B] (
       .block [
-        .assign 10 (.elem (.var 65)),
+        .assign 10 (.elem (.var 64)),
         .ite (
           .block [
-            .assign 66 (.var 10),
-            .assign 14 (.tuple [(.var 14), (.var 66)])]) (
+            .assign 65 (.var 10),
+            .assign 14 (.tuple [(.var 14), (.var 65)])]) (
           .skip),
         .ite (
           .skip) (
           .block [
-            .loop [B, B, B, F, B, B, B, F, F, B, B, B, B, B, B, N, B, F, N, F, N, N, B, B, B, N, B, B, F, F, N, N, N, B, B, B, B, F, F, F, F, F, F, F, F, F, F, F, F, B, N, B, B, B, B, F, F, F, B, N, B, B, B, B, N, B, B, B, B] (
+            .loop [B, B, B, F, B, B, B, F, F, B, B, B, B, B, B, N, B, F, N, F, N, N, B, B, B, N, B, B, F, N, N, N, B, B, B, B, F, F, F, F, F, F, F, F, F, F, F, F, B, N, B, B, B, B, F, F, F, B, N, B, B, B, B, N, B, B, B, B] (
               .ite (
                 .skip) (
                 .block [
-                  .assign 67 (.var 14),
-                  .loop [B, B, B, F, B, B, B, F, F, B, B, B, B, B, B, N, B, F, N, F, N, N, B, B, B, N, B, B, F, F, N, N, N, B, B, B, B, F, F, F, F, F, F, F, F, F, F, F, F, B, N, B, B, B, B, F, F, F, B, N, B, B, B, B, N, B, B, B, B] (
+                  .assign 66 (.var 14),
+                  .loop [B, B, B, F, B, B, B, F, F, B, B, B, B, B, B, N, B, F, N, F, N, N, B, B, B, N, B, B, F, N, N, N, B, B, B, B, F, F, F, F, F, F, F, F, F, F, F, F, B, N, B, B, B, B, F, F, F, B, N, B, B, B, B, N, B, B, B, B] (
                     .block [
-                      .assign 13 (.elem (.var 67)),
-                      .write 316 (.field (.elem (.var 19))),
-                      .write 318 (.elem (.field (.elem (.var 19))))])])),
+                      .assign 13 (.elem (.var 66)),
+                      .write 301 (.field (.elem (.var 19))),
+                      .write 303 (.elem (.field (.elem (.var 19))))])])),
             .ite (
               .skip) (
               .block [
                 .ite (
                   .block [
-                    .write 324 (.field (.elem (.var 19))),
-                    .write 325 (.elem (.field (.elem (.var 19))))]) (
+                    .write 309 (.field (.elem (.var 19))),
+                    .write 310 (.elem (.field (.elem (.var 19))))]) (
                   .skip),
-                .assign 68 (.var 10),
-                .assign 14 (.tuple [(.var 14), (.var 68)]),
-                .assign 67 (.tuple [(.var 67), (.var 68)])])])]),
-    .loop [B, B, B, F, B, B, B, F, F, B, B, B, B, B, B, N, B, F, N, F, N, N, B, B, B, N, B, B, F, F, N, N, N, B, B, B, B, F, F, F, F, F, F, F, F, F, F, F, F, B, N, B, B, B, B, F, F, F, B, N, B, B, B, B, N, B, B, B, B, B] (
+                .assign 67 (.var 10),
+                .assign 14 (.tuple [(.var 14), (.var 67)]),
+                .assign 66 (.tuple [(.var 66), (.var 67)])])])]),
+    .loop [B, B, B, F, B, B, B, F, F, B, B, B, B, B, B, N, B, F, N, F, N, N, B, B, B, N, B, B, F, N, N, N, B, B, B, B, F, F, F, F, F, F, F, F, F, F, F, F, B, N, B, B, B, B, F, F, F, B, N, B, B, B, B, N, B, B, B, B, B] (
       .block [
-        .assign 69 (.var 14),
-        .loop [B, B, B, F, B, B, B, F, F, B, B, B, B, B, B, N, B, F, N, F, N, N, B, B, B, N, B, B, F, F, N, N, N, B, B, B, B, F, F, F, F, F, F, F, F, F, F, F, F, B, N, B, B, B, B, F, F, F, B, N, B, B, B, B, N, B, B, B, B, B] (
+        .assign 68 (.var 14),
+        .loop [B, B, B, F, B, B, B, F, F, B, B, B, B, B, B, N, B, F, N, F, N, N, B, B, B, N, B, B, F, N, N, N, B, B, B, B, F, F, F, F, F, F, F, F, F, F, F, F, B, N, B, B, B, B, F, F, F, B, N, B, B, B, B, N, B, B, B, B, B] (
           .block [
-            .assign 13 (.elem (.var 69)),
-            .write 334 (.field (.elem (.var 19))),
-            .write 336 (.elem (.field (.elem (.var 19))))])]),
-    .assign 70 (.tuple [(.var 19), (.var 1)]),
-    .loop [B, B, B, F, B, B, B, F, F, B, B, B, B, B, B, B, B, F, N, F, N, N, B, B, B, N, B, B, F, F, N, N, N, B, B, B, B, F, F, F, F, F, F, F, F, F, F, F, F, B, N, B, B, B, B, F, F, F, B, N, B, B, B, B, N, B, B, B, B, B, B] (
+            .assign 13 (.elem (.var 68)),
+            .write 319 (.field (.elem (.var 19))),
+            .write 321 (.elem (.field (.elem (.var 19))))])]),
+    .assign 69 (.tuple [(.var 19), (.var 1)]),
+    .loop [B, B, B, F, B, B, B, F, F, B, B, B, B, B, B, B, B, F, N, F, N, N, B, B, B, N, B, B, F, N, N, N, B, B, B, B, F, F, F, F, F, F, F, F, F, F, F, F, B, N, B, B, B, B, F, F, F, B, N, B, B, B, B, N, B, B, B, B, B, B] (
       .block [
         .assign 17 (.elem (.var 19)),
         .assign 15 (.elem (.var 1)),
-        .write 340 (.field (.var 17)),
-        .write 341 (.field (.var 17))]),
+        .write 325 (.field (.var 17)),
+        .write 326 (.field (.var 17))]),
     .ret (.var 19)]⟩
 def ct__extract_subsequences : Contract := ⟨[B, B, B], F⟩
 
-/-- `extract_subsequence` (sequences_lib.py:347)  params: sequence, start_time, end_time, preserve_control_numbers
-variables: 0=sequence 1=start_time 2=end_time 3=preserve_control_numbers 4=_r383
+/-- `extract_subsequence` (sequences_lib.py:332)  params: sequence, start_time, end_time, preserve_control_numbers
+variables: 0=sequence 1=start_time 2=end_time 3=preserve_control_numbers 4=_r368
 -/
 def op_extract_subsequence (ix : Nat → Nat) : OpDef := ⟨"extract_subsequence", 4,
   .block [
@@ -308,12 +296,12 @@ def op_extract_subsequence (ix : Nat → Nat) : OpDef := ⟨"extract_subsequence
     .assign 1 (.param 1),
     .assign 2 (.param 2),
     .assign 3 (.param 3),
-    .callOp 383 4 (ix 3) [(.var 0), (.tuple [(.var 1), (.var 2)]), (.var 3)],
+    .callOp 368 4 (ix 2) [(.var 0), (.tuple [(.var 1), (.var 2)]), (.var 3)],
     .ret (.elem (.var 4))]⟩
 def ct_extract_subsequence : Contract := ⟨[B, B, B, B], F⟩
 
-/-- `split_note_sequence` (sequences_lib.py:755)  params: note_sequence, hop_size_seconds, skip_splits_inside_notes
-variables: 0=note_sequence 1=hop_size_seconds 2=skip_splits_inside_notes 3=note_idx 4=notes_by_start_time 5=notes_crossing_split 6=split_time 7=split_times 8=valid_split_times 9=note@key784 10=%it796_20 11=_acc802 12=note@802 13=%it802_25 14=_r814
+/-- `split_note_sequence` (sequences_lib.py:745)  params: note_sequence, hop_size_seconds, skip_splits_inside_notes
+variables: 0=note_sequence 1=hop_size_seconds 2=skip_splits_inside_notes 3=note_idx 4=notes_by_start_time 5=notes_crossing_split 6=split_time 7=split_times 8=valid_split_times 9=note@key774 10=%it786_20 11=_acc792 12=note@792 13=%it792_25 14=_r804
 -/
 def op_split_note_sequence (ix : Nat → Nat) : OpDef := ⟨"split_note_sequence", 3,
   .block [
@@ -354,13 +342,13 @@ def op_split_note_sequence (ix : Nat → Nat) : OpDef := ⟨"split_note_sequence
           .skip)]),
     .ite (
       .block [
-        .callOp 814 14 (ix 3) [(.var 0), (.var 8), .scalar],
+        .callOp 804 14 (ix 2) [(.var 0), (.var 8), .scalar],
         .ret (.var 14)]) (
       .ret .scalar)]⟩
 def ct_split_note_sequence : Contract := ⟨[B, B, B], F⟩
 
-/-- `split_note_sequence_on_time_changes` (sequences_lib.py:819)  params: note_sequence, skip_splits_inside_notes
-variables: 0=note_sequence 1=skip_splits_inside_notes 2=current_denominator 3=current_numerator 4=current_qpm 5=note_idx 6=notes_by_start_time 7=notes_crossing_split 8=time_change 9=time_signatures_and_tempos 10=valid_split_times 11=t@key844 12=_acc845 13=t@845 14=%it845_17 15=note@key850 16=%it856_21 17=_acc872 18=note@872 19=%it872_25 20=_r893
+/-- `split_note_sequence_on_time_changes` (sequences_lib.py:809)  params: note_sequence, skip_splits_inside_notes
+variables: 0=note_sequence 1=skip_splits_inside_notes 2=current_denominator 3=current_numerator 4=current_qpm 5=note_idx 6=notes_by_start_time 7=notes_crossing_split 8=time_change 9=time_signatures_and_tempos 10=valid_split_times 11=t@key834 12=_acc835 13=t@835 14=%it835_17 15=note@key840 16=%it846_21 17=_acc862 18=note@862 19=%it862_25 20=_r883
 -/
 def op_split_note_sequence_on_time_changes (ix : Nat → Nat) : OpDef := ⟨"split_note_sequence_on_time_changes", 2,
   .block [
@@ -410,13 +398,13 @@ def op_split_note_sequence_on_time_changes (ix : Nat → Nat) : OpDef := ⟨"spl
               .assign 4 .scalar)])]),
     .ite (
       .block [
-        .callOp 893 20 (ix 3) [(.var 0), (.var 10), .scalar],
+        .callOp 883 20 (ix 2) [(.var 0), (.var 10), .scalar],
         .ret (.var 20)]) (
       .ret .scalar)]⟩
 def ct_split_note_sequence_on_time_changes : Contract := ⟨[B, B], F⟩
 
-/-- `split_note_sequence_on_silence` (sequences_lib.py:898)  params: note_sequence, gap_seconds
-variables: 0=note_sequence 1=gap_seconds 2=last_active_time 3=note 4=notes_by_start_time 5=split_times 6=note@key914 7=%it919_14 8=_r928
+/-- `split_note_sequence_on_silence` (sequences_lib.py:888)  params: note_sequence, gap_seconds
+variables: 0=note_sequence 1=gap_seconds 2=last_active_time 3=note 4=notes_by_start_time 5=split_times 6=note@key904 7=%it909_14 8=_r918
 -/
 def op_split_note_sequence_on_silence (ix : Nat → Nat) : OpDef := ⟨"split_note_sequence_on_silence", 2,
   .block [
@@ -432,22 +420,13 @@ def op_split_note_sequence_on_silence (ix : Nat → Nat) : OpDef := ⟨"split_no
         .assign 2 (.var 2)]),
     .ite (
       .block [
-        .callOp 928 8 (ix 3) [(.var 0), (.var 5), .scalar],
+        .callOp 918 8 (ix 2) [(.var 0), (.var 5), .scalar],
         .ret (.var 8)]) (
       .ret .scalar)]⟩
 def ct_split_note_sequence_on_silence : Contract := ⟨[B, B], F⟩
 
-/-- `_timed_event_lists` (sequences_lib.py:96)  params: sequence
-variables: 0=sequence
--/
-def op__timed_event_lists (ix : Nat → Nat) : OpDef := ⟨"_timed_event_lists", 1,
-  .block [
-    .assign 0 (.param 0),
-    .ret (.tuple [(.field (.var 0)), (.field (.var 0)), (.field (.var 0)), (.field (.var 0)), (.field (.var 0)), (.field (.var 0)), (.field (.var 0))])]⟩
-def ct__timed_event_lists : Contract := ⟨[B], B⟩
-
-/-- `shift_sequence_times` (sequences_lib.py:389)  params: sequence, shift_seconds
-variables: 0=sequence 1=shift_seconds 2=event 3=events_to_shift 4=note 5=shifted 6=_r407 7=_r411 8=%it417_14 9=_r422 10=%it422_25 11=%it423_17
+/-- `shift_sequence_times` (sequences_lib.py:374)  params: sequence, shift_seconds
+variables: 0=sequence 1=shift_seconds 2=event 3=events_to_shift 4=note 5=shifted 6=_r392 7=%it403_14 8=%it413_15
 -/
 def op_shift_sequence_times (ix : Nat → Nat) : OpDef := ⟨"shift_sequence_times", 2,
   .block [
@@ -456,84 +435,76 @@ def op_shift_sequence_times (ix : Nat → Nat) : OpDef := ⟨"shift_sequence_tim
     .ite (
       .raise) (
       .skip),
-    .callOp 407 6 (ix 0) [(.var 0)],
+    .callOp 392 6 (ix 0) [(.var 0)],
     .ite (
       .raise) (
       .skip),
-    .callOp 411 7 (ix 1) [(.var 0)],
-    .assign 5 (.var 7),
-    .write 414 (.var 5),
-    .assign 8 (.field (.var 5)),
-    .loop [B, B, N, N, F, F, N, F, F] (
+    .assign 5 .fresh,
+    .write 397 (.var 5),
+    .write 400 (.var 5),
+    .assign 7 (.field (.var 5)),
+    .loop [B, B, N, N, F, F, N, F] (
       .block [
-        .assign 4 (.elem (.var 8)),
-        .write 418 (.var 4),
-        .write 419 (.var 4)]),
-    .callOp 422 9 (ix 8) [(.var 5)],
-    .assign 10 (.var 9),
-    .loop [B, B, B, B, F, F, N, F, F, B, B, B] (
+        .assign 4 (.elem (.var 7)),
+        .write 404 (.var 4),
+        .write 405 (.var 4)]),
+    .assign 3 (.tuple [(.field (.var 5)), (.field (.var 5)), (.field (.var 5)), (.field (.var 5)), (.field (.var 5)), (.field (.var 5)), (.field (.var 5))]),
+    .assign 8 (.var 3),
+    .loop [B, B, F, F, F, F, N, F, F] (
       .block [
-        .assign 3 (.elem (.var 10)),
-        .assign 11 (.var 3),
-        .loop [B, B, B, B, F, F, N, F, F, B, B, B] (
-          .block [
-            .assign 2 (.elem (.var 11)),
-            .write 424 (.var 2)])]),
-    .write 426 (.var 5),
+        .assign 2 (.elem (.var 8)),
+        .write 414 (.var 2)]),
+    .write 416 (.var 5),
     .ret (.var 5)]⟩
-def ct_shift_sequence_times : Contract := ⟨[B, B], B⟩
+def ct_shift_sequence_times : Contract := ⟨[B, B], F⟩
 
-/-- `stretch_note_sequence` (sequences_lib.py:1336)  params: note_sequence, stretch_factor, in_place
-variables: 0=note_sequence 1=stretch_factor 2=in_place 3=event 4=events 5=note 6=stretched_sequence 7=tempo 8=_r1354 9=_r1361 10=%it1367_14 11=_r1373 12=%it1373_16 13=%it1374_17 14=%it1378_15
+/-- `stretch_note_sequence` (sequences_lib.py:1329)  params: note_sequence, stretch_factor, in_place
+variables: 0=note_sequence 1=stretch_factor 2=in_place 3=event 4=events 5=note 6=stretched_sequence 7=tempo 8=_r1347 9=%it1361_14 10=%it1372_15 11=%it1376_15
 -/
 def op_stretch_note_sequence (ix : Nat → Nat) : OpDef := ⟨"stretch_note_sequence", 3,
   .block [
     .assign 0 (.param 0),
     .assign 1 (.param 1),
     .assign 2 .scalar,
-    .callOp 1354 8 (ix 0) [(.var 0)],
+    .callOp 1347 8 (ix 0) [(.var 0)],
     .ite (
       .raise) (
       .skip),
-    .callOp 1361 9 (ix 1) [(.var 0)],
-    .assign 6 (.var 9),
+    .assign 6 .fresh,
+    .write 1355 (.var 6),
     .ite (
       .ret (.var 6)) (
       .skip),
-    .assign 10 (.field (.var 6)),
-    .loop [B, B, N, N, N, F, F, N, N, F, F] (
+    .assign 9 (.field (.var 6)),
+    .loop [B, B, N, N, N, F, F, N, N, F] (
       .block [
-        .assign 5 (.elem (.var 10)),
-        .write 1368 (.var 5),
-        .write 1369 (.var 5)]),
-    .write 1370 (.var 6),
-    .callOp 1373 11 (ix 8) [(.var 6)],
-    .assign 12 (.var 11),
-    .loop [B, B, N, B, B, F, F, N, N, F, F, B, B, B] (
+        .assign 5 (.elem (.var 9)),
+        .write 1362 (.var 5),
+        .write 1363 (.var 5)]),
+    .write 1364 (.var 6),
+    .assign 4 (.tuple [(.field (.var 6)), (.field (.var 6)), (.field (.var 6)), (.field (.var 6)), (.field (.var 6)), (.field (.var 6)), (.field (.var 6))]),
+    .assign 10 (.var 4),
+    .loop [B, B, N, F, F, F, F, N, N, F, F] (
       .block [
-        .assign 4 (.elem (.var 12)),
-        .assign 13 (.var 4),
-        .loop [B, B, N, B, B, F, F, N, N, F, F, B, B, B] (
-          .block [
-            .assign 3 (.elem (.var 13)),
-            .write 1375 (.var 3)])]),
-    .assign 14 (.field (.var 6)),
-    .loop [B, B, N, B, B, F, F, F, N, F, F, B, B, B, F] (
+        .assign 3 (.elem (.var 10)),
+        .write 1373 (.var 3)]),
+    .assign 11 (.field (.var 6)),
+    .loop [B, B, N, F, F, F, F, F, N, F, F, F] (
       .block [
-        .assign 7 (.elem (.var 14)),
-        .write 1379 (.var 7)]),
+        .assign 7 (.elem (.var 11)),
+        .write 1377 (.var 7)]),
     .ret (.var 6)]⟩
-def ct_stretch_note_sequence : Contract := ⟨[B, B, B], B⟩
+def ct_stretch_note_sequence : Contract := ⟨[B, B, B], F⟩
 
-/-- `stretch_note_sequence__in_place` (sequences_lib.py:1336)  params: note_sequence, stretch_factor, in_place
-variables: 0=note_sequence 1=stretch_factor 2=in_place 3=event 4=events 5=note 6=stretched_sequence 7=tempo 8=_r1354 9=%it1367_14 10=_r1373 11=%it1373_16 12=%it1374_17 13=%it1378_15
+/-- `stretch_note_sequence__in_place` (sequences_lib.py:1329)  params: note_sequence, stretch_factor, in_place
+variables: 0=note_sequence 1=stretch_factor 2=in_place 3=event 4=events 5=note 6=stretched_sequence 7=tempo 8=_r1347 9=%it1361_14 10=%it1372_15 11=%it1376_15
 -/
 def op_stretch_note_sequence__in_place (ix : Nat → Nat) : OpDef := ⟨"stretch_note_sequence__in_place", 3,
   .block [
     .assign 0 (.param 0),
     .assign 1 (.param 1),
     .assign 2 .scalar,
-    .callOp 1354 8 (ix 0) [(.var 0)],
+    .callOp 1347 8 (ix 0) [(.var 0)],
     .ite (
       .raise) (
       .skip),
@@ -542,32 +513,28 @@ def op_stretch_note_sequence__in_place (ix : Nat → Nat) : OpDef := ⟨"stretch
       .ret (.var 6)) (
       .skip),
     .assign 9 (.field (.var 6)),
-    .loop [B, B, N, N, N, B, B, N, N, B] (
+    .loop [F, B, N, N, N, F, F, N, N, F] (
       .block [
         .assign 5 (.elem (.var 9)),
-        .write 1368 (.var 5),
-        .write 1369 (.var 5)]),
-    .write 1370 (.var 6),
-    .callOp 1373 10 (ix 8) [(.var 6)],
-    .assign 11 (.var 10),
-    .loop [B, B, N, B, B, B, B, N, N, B, B, B, B] (
+        .write 1362 (.var 5),
+        .write 1363 (.var 5)]),
+    .write 1364 (.var 6),
+    .assign 4 (.tuple [(.field (.var 6)), (.field (.var 6)), (.field (.var 6)), (.field (.var 6)), (.field (.var 6)), (.field (.var 6)), (.field (.var 6))]),
+    .assign 10 (.var 4),
+    .loop [F, B, N, F, F, F, F, N, N, F, F] (
       .block [
-        .assign 4 (.elem (.var 11)),
-        .assign 12 (.var 4),
-        .loop [B, B, N, B, B, B, B, N, N, B, B, B, B] (
-          .block [
-            .assign 3 (.elem (.var 12)),
-            .write 1375 (.var 3)])]),
-    .assign 13 (.field (.var 6)),
-    .loop [B, B, N, B, B, B, B, B, N, B, B, B, B, B] (
+        .assign 3 (.elem (.var 10)),
+        .write 1373 (.var 3)]),
+    .assign 11 (.field (.var 6)),
+    .loop [F, B, N, F, F, F, F, F, N, F, F, F] (
       .block [
-        .assign 7 (.elem (.var 13)),
-        .write 1379 (.var 7)]),
+        .assign 7 (.elem (.var 11)),
+        .write 1377 (.var 7)]),
     .ret (.var 6)]⟩
-def ct_stretch_note_sequence__in_place : Contract := ⟨[B, B, B], B⟩
+def ct_stretch_note_sequence__in_place : Contract := ⟨[F, B, B], F⟩
 
-/-- `transpose_note_sequence` (sequences_lib.py:1149)  params: ns, amount, min_allowed_pitch, max_allowed_pitch, transpose_chords, in_place
-variables: 0=ns 1=amount 2=min_allowed_pitch 3=max_allowed_pitch 4=transpose_chords 5=in_place 6=deleted_note_count 7=end_time 8=ks 9=new_note_list 10=new_pitch 11=note 12=ta 13=text_annotations_to_keep 14=_r1175 15=%it1181_14 16=%it1206_14 17=_acc1211 18=ta@1211 19=%it1211_21 20=%it1219_12
+/-- `transpose_note_sequence` (sequences_lib.py:1139)  params: ns, amount, min_allowed_pitch, max_allowed_pitch, transpose_chords, in_place
+variables: 0=ns 1=amount 2=min_allowed_pitch 3=max_allowed_pitch 4=transpose_chords 5=in_place 6=deleted_note_count 7=end_time 8=ks 9=new_note_list 10=new_ns 11=new_pitch 12=note 13=ta 14=text_annotations_to_keep 15=%it1173_14 16=%it1198_14 17=%it1204_14 18=%it1212_12
 -/
 def op_transpose_note_sequence (ix : Nat → Nat) : OpDef := ⟨"transpose_note_sequence", 6,
   .block [
@@ -577,66 +544,66 @@ def op_transpose_note_sequence (ix : Nat → Nat) : OpDef := ⟨"transpose_note_
     .assign 3 (.param 3),
     .assign 4 (.param 4),
     .assign 5 .scalar,
-    .callOp 1175 14 (ix 1) [(.var 0)],
-    .assign 0 (.var 14),
+    .assign 10 .fresh,
+    .write 1166 (.var 10),
+    .assign 0 (.var 10),
     .assign 9 .scalar,
     .assign 6 .scalar,
     .assign 7 .scalar,
     .assign 15 (.field (.var 0)),
-    .loop [F, B, B, B, B, N, N, N, N, F, B, F, N, N, F, F] (
+    .loop [F, B, B, B, B, N, N, N, N, F, F, B, F, N, N, F] (
       .block [
-        .assign 11 (.elem (.var 15)),
-        .assign 10 (.var 1),
+        .assign 12 (.elem (.var 15)),
+        .assign 11 (.var 1),
         .ite (
           .block [
             .assign 7 (.var 7),
             .ite (
               .block [
-                .write 1187 (.var 11),
-                .write 1190 (.var 11)]) (
+                .write 1179 (.var 12),
+                .write 1182 (.var 12)]) (
               .skip),
-            .assign 9 (.tuple [(.var 9), (.var 11)])]) (
+            .assign 9 (.tuple [(.var 9), (.var 12)])]) (
           .skip)]),
     .ite (
       .block [
-        .write 1197 (.field (.var 0)),
-        .write 1198 (.field (.var 0))]) (
+        .write 1189 (.field (.var 0)),
+        .write 1190 (.field (.var 0))]) (
       .skip),
-    .write 1201 (.var 0),
+    .write 1193 (.var 0),
     .ite (
       .block [
         .assign 16 (.field (.var 0)),
-        .loop [F, B, B, B, B, N, N, N, N, F, B, F, F, N, F, F, F] (
+        .loop [F, B, B, B, B, N, N, N, N, F, F, B, F, F, N, F, F] (
           .block [
-            .assign 12 (.elem (.var 16)),
+            .assign 13 (.elem (.var 16)),
             .ite (
-              .write 1208 (.var 12)) (
+              .write 1200 (.var 13)) (
               .skip)])]) (
       .block [
-        .assign 17 .scalar,
-        .assign 19 (.field (.var 0)),
-        .loop [F, B, B, B, B, N, N, N, N, F, B, F, N, N, F, F, N, F, F, F] (
+        .assign 14 .scalar,
+        .assign 17 (.field (.var 0)),
+        .loop [F, B, B, B, B, N, N, N, N, F, F, B, F, F, F, F, N, F] (
           .block [
-            .assign 18 (.elem (.var 19)),
+            .assign 13 (.elem (.var 17)),
             .ite (
-              .assign 17 (.tuple [(.var 17), (.var 18)])) (
+              .assign 14 (.tuple [(.var 14), (.var 13)])) (
               .skip)]),
-        .assign 13 (.var 17),
         .ite (
           .block [
-            .write 1215 (.field (.var 0)),
-            .write 1216 (.field (.var 0))]) (
+            .write 1208 (.field (.var 0)),
+            .write 1209 (.field (.var 0))]) (
           .skip)]),
-    .assign 20 (.field (.var 0)),
-    .loop [F, B, B, B, B, N, N, N, F, F, B, F, F, F, F, F, F, F, F, F, F] (
+    .assign 18 (.field (.var 0)),
+    .loop [F, B, B, B, B, N, N, N, F, F, F, B, F, F, F, F, F, F, F] (
       .block [
-        .assign 8 (.elem (.var 20)),
-        .write 1220 (.var 8)]),
+        .assign 8 (.elem (.var 18)),
+        .write 1213 (.var 8)]),
     .ret (.tuple [(.var 0), (.var 6)])]⟩
 def ct_transpose_note_sequence : Contract := ⟨[B, B, B, B, B, B], F⟩
 
-/-- `transpose_note_sequence__in_place` (sequences_lib.py:1149)  params: ns, amount, min_allowed_pitch, max_allowed_pitch, transpose_chords, in_place
-variables: 0=ns 1=amount 2=min_allowed_pitch 3=max_allowed_pitch 4=transpose_chords 5=in_place 6=deleted_note_count 7=end_time 8=ks 9=new_note_list 10=new_pitch 11=note 12=ta 13=text_annotations_to_keep 14=%it1181_14 15=%it1206_14 16=_acc1211 17=ta@1211 18=%it1211_21 19=%it1219_12
+/-- `transpose_note_sequence__in_place` (sequences_lib.py:1139)  params: ns, amount, min_allowed_pitch, max_allowed_pitch, transpose_chords, in_place
+variables: 0=ns 1=amount 2=min_allowed_pitch 3=max_allowed_pitch 4=transpose_chords 5=in_place 6=deleted_note_count 7=end_time 8=ks 9=new_note_list 10=new_ns 11=new_pitch 12=note 13=ta 14=text_annotations_to_keep 15=%it1173_14 16=%it1198_14 17=%it1204_14 18=%it1212_12
 -/
 def op_transpose_note_sequence__in_place (ix : Nat → Nat) : OpDef := ⟨"transpose_note_sequence__in_place", 6,
   .block [
@@ -649,60 +616,59 @@ def op_transpose_note_sequence__in_place (ix : Nat → Nat) : OpDef := ⟨"trans
     .assign 9 .scalar,
     .assign 6 .scalar,
     .assign 7 .scalar,
-    .assign 14 (.field (.var 0)),
-    .loop [F, B, B, B, B, N, N, N, N, F, B, F, N, N, F] (
+    .assign 15 (.field (.var 0)),
+    .loop [F, B, B, B, B, N, N, N, N, F, N, B, F, N, N, F] (
       .block [
-        .assign 11 (.elem (.var 14)),
-        .assign 10 (.var 1),
+        .assign 12 (.elem (.var 15)),
+        .assign 11 (.var 1),
         .ite (
           .block [
             .assign 7 (.var 7),
             .ite (
               .block [
-                .write 1187 (.var 11),
-                .write 1190 (.var 11)]) (
+                .write 1179 (.var 12),
+                .write 1182 (.var 12)]) (
               .skip),
-            .assign 9 (.tuple [(.var 9), (.var 11)])]) (
+            .assign 9 (.tuple [(.var 9), (.var 12)])]) (
           .skip)]),
     .ite (
       .block [
-        .write 1197 (.field (.var 0)),
-        .write 1198 (.field (.var 0))]) (
+        .write 1189 (.field (.var 0)),
+        .write 1190 (.field (.var 0))]) (
       .skip),
-    .write 1201 (.var 0),
+    .write 1193 (.var 0),
     .ite (
       .block [
-        .assign 15 (.field (.var 0)),
-        .loop [F, B, B, B, B, N, N, N, N, F, B, F, F, N, F, F] (
+        .assign 16 (.field (.var 0)),
+        .loop [F, B, B, B, B, N, N, N, N, F, N, B, F, F, N, F, F] (
           .block [
-            .assign 12 (.elem (.var 15)),
+            .assign 13 (.elem (.var 16)),
             .ite (
-              .write 1208 (.var 12)) (
+              .write 1200 (.var 13)) (
               .skip)])]) (
       .block [
-        .assign 16 .scalar,
-        .assign 18 (.field (.var 0)),
-        .loop [F, B, B, B, B, N, N, N, N, F, B, F, N, N, F, N, F, F, F] (
+        .assign 14 .scalar,
+        .assign 17 (.field (.var 0)),
+        .loop [F, B, B, B, B, N, N, N, N, F, N, B, F, F, F, F, N, F] (
           .block [
-            .assign 17 (.elem (.var 18)),
+            .assign 13 (.elem (.var 17)),
             .ite (
-              .assign 16 (.tuple [(.var 16), (.var 17)])) (
+              .assign 14 (.tuple [(.var 14), (.var 13)])) (
               .skip)]),
-        .assign 13 (.var 16),
         .ite (
           .block [
-            .write 1215 (.field (.var 0)),
-            .write 1216 (.field (.var 0))]) (
+            .write 1208 (.field (.var 0)),
+            .write 1209 (.field (.var 0))]) (
           .skip)]),
-    .assign 19 (.field (.var 0)),
-    .loop [F, B, B, B, B, N, N, N, F, F, B, F, F, F, F, F, F, F, F, F] (
+    .assign 18 (.field (.var 0)),
+    .loop [F, B, B, B, B, N, N, N, F, F, N, B, F, F, F, F, F, F, F] (
       .block [
-        .assign 8 (.elem (.var 19)),
-        .write 1220 (.var 8)]),
+        .assign 8 (.elem (.var 18)),
+        .write 1213 (.var 8)]),
     .ret (.tuple [(.var 0), (.var 6)])]⟩
 def ct_transpose_note_sequence__in_place : Contract := ⟨[F, B, B, B, B, B], F⟩
 
-/-- `quantize_to_step` (sequences_lib.py:933)  params: unquantized_seconds, steps_per_second, quantize_cutoff
+/-- `quantize_to_step` (sequences_lib.py:923)  params: unquantized_seconds, steps_per_second, quantize_cutoff
 variables: 0=unquantized_seconds 1=steps_per_second 2=quantize_cutoff 3=unquantized_steps
 -/
 def op_quantize_to_step (ix : Nat → Nat) : OpDef := ⟨"quantize_to_step", 3,
@@ -714,8 +680,8 @@ def op_quantize_to_step (ix : Nat → Nat) : OpDef := ⟨"quantize_to_step", 3,
     .ret .scalar]⟩
 def ct_quantize_to_step : Contract := ⟨[B, B, B], N⟩
 
-/-- `_quantize_notes` (sequences_lib.py:958)  params: note_sequence, steps_per_second
-variables: 0=note_sequence 1=steps_per_second 2=event 3=note 4=%it975_14 5=_r977 6=_r979 7=%it994_15 8=_r997
+/-- `_quantize_notes` (sequences_lib.py:948)  params: note_sequence, steps_per_second
+variables: 0=note_sequence 1=steps_per_second 2=event 3=note 4=%it965_14 5=_r967 6=_r969 7=%it984_15 8=_r987
 -/
 def op__quantize_notes (ix : Nat → Nat) : OpDef := ⟨"_quantize_notes", 2,
   .block [
@@ -725,31 +691,31 @@ def op__quantize_notes (ix : Nat → Nat) : OpDef := ⟨"_quantize_notes", 2,
     .loop [F, B, N, F, F, N, N] (
       .block [
         .assign 3 (.elem (.var 4)),
-        .callOp 977 5 (ix 14) [.scalar, (.var 1), .scalar],
-        .write 977 (.var 3),
-        .callOp 979 6 (ix 14) [.scalar, (.var 1), .scalar],
-        .write 979 (.var 3),
+        .callOp 967 5 (ix 12) [.scalar, (.var 1), .scalar],
+        .write 967 (.var 3),
+        .callOp 969 6 (ix 12) [.scalar, (.var 1), .scalar],
+        .write 969 (.var 3),
         .ite (
-          .write 981 (.var 3)) (
+          .write 971 (.var 3)) (
           .skip),
         .ite (
           .raise) (
           .skip),
         .ite (
-          .write 991 (.var 0)) (
+          .write 981 (.var 0)) (
           .skip)]),
     .assign 7 (.tuple [(.field (.var 0)), (.field (.var 0))]),
     .loop [F, B, F, F, F, N, N, F, N] (
       .block [
         .assign 2 (.elem (.var 7)),
-        .callOp 997 8 (ix 14) [.scalar, (.var 1), .scalar],
-        .write 997 (.var 2),
+        .callOp 987 8 (ix 12) [.scalar, (.var 1), .scalar],
+        .write 987 (.var 2),
         .ite (
           .raise) (
           .skip)])]⟩
 def ct__quantize_notes : Contract := ⟨[F, B], N⟩
 
-/-- `_is_power_of_2` (sequences_lib.py:643)  params: x
+/-- `_is_power_of_2` (sequences_lib.py:633)  params: x
 variables: 0=x
 -/
 def op__is_power_of_2 (ix : Nat → Nat) : OpDef := ⟨"_is_power_of_2", 1,
@@ -758,7 +724,7 @@ def op__is_power_of_2 (ix : Nat → Nat) : OpDef := ⟨"_is_power_of_2", 1,
     .ret (.var 0)]⟩
 def ct__is_power_of_2 : Contract := ⟨[B], B⟩
 
-/-- `steps_per_quarter_to_steps_per_second` (sequences_lib.py:953)  params: steps_per_quarter, qpm
+/-- `steps_per_quarter_to_steps_per_second` (sequences_lib.py:943)  params: steps_per_quarter, qpm
 variables: 0=steps_per_quarter 1=qpm
 -/
 def op_steps_per_quarter_to_steps_per_second (ix : Nat → Nat) : OpDef := ⟨"steps_per_quarter_to_steps_per_second", 2,
@@ -768,15 +734,15 @@ def op_steps_per_quarter_to_steps_per_second (ix : Nat → Nat) : OpDef := ⟨"s
     .ret (.tuple [(.var 0), (.var 1)])]⟩
 def ct_steps_per_quarter_to_steps_per_second : Contract := ⟨[B, B], B⟩
 
-/-- `quantize_note_sequence` (sequences_lib.py:1003)  params: note_sequence, steps_per_quarter
-variables: 0=note_sequence 1=steps_per_quarter 2=qns 3=steps_per_second 4=tempo 5=tempos 6=time_signature 7=time_signatures 8=ts@key1036 9=%it1049_26 10=_r1069 11=t@key1080 12=%it1091_17 13=_r1106 14=_r1109 15=_r1110
+/-- `quantize_note_sequence` (sequences_lib.py:993)  params: note_sequence, steps_per_quarter
+variables: 0=note_sequence 1=steps_per_quarter 2=qns 3=steps_per_second 4=tempo 5=tempos 6=time_signature 7=time_signatures 8=ts@key1026 9=%it1039_26 10=_r1059 11=t@key1070 12=%it1081_17 13=_r1096 14=_r1099 15=_r1100
 -/
 def op_quantize_note_sequence (ix : Nat → Nat) : OpDef := ⟨"quantize_note_sequence", 2,
   .block [
     .assign 0 (.param 0),
     .assign 1 (.param 1),
     .assign 2 (.copyOf (.var 0)),
-    .write 1033 (.field (.var 2)),
+    .write 1023 (.field (.var 2)),
     .ite (
       .block [
         .assign 7 (.field (.var 2)),
@@ -790,15 +756,15 @@ def op_quantize_note_sequence (ix : Nat → Nat) : OpDef := ⟨"quantize_note_se
             .ite (
               .raise) (
               .skip)]),
-        .write 1061 (.elem (.field (.var 2))),
-        .write 1062 (.field (.var 2))]) (
+        .write 1051 (.elem (.field (.var 2))),
+        .write 1052 (.field (.var 2))]) (
       .block [
-        .write 1064 (.field (.var 2)),
+        .write 1054 (.field (.var 2)),
         .assign 6 (.elem (.field (.var 2))),
-        .write 1065 (.var 6),
-        .write 1066 (.var 6),
-        .write 1067 (.var 6)]),
-    .callOp 1069 10 (ix 16) [.scalar],
+        .write 1055 (.var 6),
+        .write 1056 (.var 6),
+        .write 1057 (.var 6)]),
+    .callOp 1059 10 (ix 14) [.scalar],
     .ite (
       .raise) (
       .skip),
@@ -818,44 +784,44 @@ def op_quantize_note_sequence (ix : Nat → Nat) : OpDef := ⟨"quantize_note_se
             .ite (
               .raise) (
               .skip)]),
-        .write 1098 (.elem (.field (.var 2))),
-        .write 1099 (.field (.var 2))]) (
+        .write 1088 (.elem (.field (.var 2))),
+        .write 1089 (.field (.var 2))]) (
       .block [
-        .write 1101 (.field (.var 2)),
+        .write 1091 (.field (.var 2)),
         .assign 4 (.elem (.field (.var 2))),
-        .write 1102 (.var 4),
-        .write 1103 (.var 4)]),
-    .callOp 1106 13 (ix 17) [(.var 1), .scalar],
+        .write 1092 (.var 4),
+        .write 1093 (.var 4)]),
+    .callOp 1096 13 (ix 15) [(.var 1), .scalar],
     .assign 3 (.var 13),
-    .callOp 1109 14 (ix 14) [.scalar, (.var 3), .scalar],
-    .write 1109 (.var 2),
-    .callOp 1110 15 (ix 15) [(.var 2), (.var 3)],
+    .callOp 1099 14 (ix 12) [.scalar, (.var 3), .scalar],
+    .write 1099 (.var 2),
+    .callOp 1100 15 (ix 13) [(.var 2), (.var 3)],
     .ret (.var 2)]⟩
 def ct_quantize_note_sequence : Contract := ⟨[B, B], F⟩
 
-/-- `quantize_note_sequence_absolute` (sequences_lib.py:1115)  params: note_sequence, steps_per_second
-variables: 0=note_sequence 1=steps_per_second 2=qns 3=_r1143 4=_r1144
+/-- `quantize_note_sequence_absolute` (sequences_lib.py:1105)  params: note_sequence, steps_per_second
+variables: 0=note_sequence 1=steps_per_second 2=qns 3=_r1133 4=_r1134
 -/
 def op_quantize_note_sequence_absolute (ix : Nat → Nat) : OpDef := ⟨"quantize_note_sequence_absolute", 2,
   .block [
     .assign 0 (.param 0),
     .assign 1 (.param 1),
     .assign 2 (.copyOf (.var 0)),
-    .write 1141 (.field (.var 2)),
-    .callOp 1143 3 (ix 14) [.scalar, (.var 1), .scalar],
-    .write 1143 (.var 2),
-    .callOp 1144 4 (ix 15) [(.var 2), (.var 1)],
+    .write 1131 (.field (.var 2)),
+    .callOp 1133 3 (ix 12) [.scalar, (.var 1), .scalar],
+    .write 1133 (.var 2),
+    .callOp 1134 4 (ix 13) [(.var 2), (.var 1)],
     .ret (.var 2)]⟩
 def ct_quantize_note_sequence_absolute : Contract := ⟨[B, B], F⟩
 
-/-- `apply_sustain_control_changes` (sequences_lib.py:1555)  params: note_sequence, sustain_control_number
-variables: 0=note_sequence 1=sustain_control_number 2=active_notes 3=cc 4=event 5=event_type 6=events 7=instrument 8=new_active_notes 9=note 10=sequence 11=sus_active 12=time 13=value 14=_r1581 15=_acc1589 16=note@1589 17=%it1589_63 18=_acc1591 19=note@1591 20=%it1591_62 21=%it1594_12 22=%it1616_33 23=_t1618 24=_t1620 25=%it1623_18 26=_t1633 27=%it1638_20 28=_t1652 29=%it1669_20 30=%it1670_16
+/-- `apply_sustain_control_changes` (sequences_lib.py:1553)  params: note_sequence, sustain_control_number
+variables: 0=note_sequence 1=sustain_control_number 2=active_notes 3=cc 4=event 5=event_type 6=events 7=instrument 8=new_active_notes 9=note 10=sequence 11=sus_active 12=time 13=value 14=_r1579 15=_acc1587 16=note@1587 17=%it1587_63 18=_acc1589 19=note@1589 20=%it1589_62 21=%it1592_12 22=%it1614_33 23=_t1616 24=_t1618 25=%it1621_18 26=_t1631 27=%it1636_20 28=_t1650 29=%it1667_20 30=%it1668_16
 -/
 def op_apply_sustain_control_changes (ix : Nat → Nat) : OpDef := ⟨"apply_sustain_control_changes", 2,
   .block [
     .assign 0 (.param 0),
     .assign 1 (.param 1),
-    .callOp 1581 14 (ix 0) [(.var 0)],
+    .callOp 1579 14 (ix 0) [(.var 0)],
     .ite (
       .raise) (
       .skip),
@@ -943,9 +909,9 @@ def op_apply_sustain_control_changes (ix : Nat → Nat) : OpDef := ⟨"apply_sus
                   .assign 9 (.elem (.var 25)),
                   .ite (
                     .block [
-                      .write 1627 (.var 9),
+                      .write 1625 (.var 9),
                       .ite (
-                        .write 1629 (.var 10)) (
+                        .write 1627 (.var 10)) (
                         .skip)]) (
                     .block [
                       .assign 2 (.tuple [(.var 2), (.var 9)]),
@@ -980,9 +946,9 @@ def op_apply_sustain_control_changes (ix : Nat → Nat) : OpDef := ⟨"apply_sus
                         .assign 9 (.elem (.var 27)),
                         .ite (
                           .block [
-                            .write 1640 (.var 9),
+                            .write 1638 (.var 9),
                             .ite (
-                              .write 1649 (.field (.var 10))) (
+                              .write 1647 (.field (.var 10))) (
                               .skip)]) (
                           .block [
                             .assign 2 (.tuple [(.var 2), (.var 9)]),
@@ -1031,15 +997,15 @@ def op_apply_sustain_control_changes (ix : Nat → Nat) : OpDef := ⟨"apply_sus
         .loop [B, B, F, F, F, F, F, F, F, F, F, N, F, N, N, F, F, F, F, F, F, F, F, N, N, F, F, F, F, F, F] (
           .block [
             .assign 9 (.elem (.var 30)),
-            .write 1671 (.var 9),
+            .write 1669 (.var 9),
             .ite (
-              .write 1673 (.var 10)) (
+              .write 1671 (.var 10)) (
               .skip)])]),
     .ret (.var 10)]⟩
 def ct_apply_sustain_control_changes : Contract := ⟨[B, B], F⟩
 
-/-- `remove_redundant_data` (sequences_lib.py:431)  params: sequence
-variables: 0=sequence 1=added_composer 2=added_genre 3=composer 4=events 5=fixed_sequence 6=genre 7=i 8=tmp_ts 9=%it449_16 10=e@key453 11=%it454_13 12=%it466_20 13=%it473_17
+/-- `remove_redundant_data` (sequences_lib.py:421)  params: sequence
+variables: 0=sequence 1=added_composer 2=added_genre 3=composer 4=events 5=fixed_sequence 6=genre 7=i 8=tmp_ts 9=%it439_16 10=e@key443 11=%it444_13 12=%it456_20 13=%it463_17
 -/
 def op_remove_redundant_data (ix : Nat → Nat) : OpDef := ⟨"remove_redundant_data", 1,
   .block [
@@ -1049,19 +1015,19 @@ def op_remove_redundant_data (ix : Nat → Nat) : OpDef := ⟨"remove_redundant_
     .loop [B, N, N, N, F, F, N, N, F, F, N, N] (
       .block [
         .assign 4 (.elem (.var 9)),
-        .write 453 (.var 4),
+        .write 443 (.var 4),
         .assign 11 .scalar,
         .loop [B, N, N, N, F, F, N, N, F, F, N, N] (
           .block [
             .assign 7 (.elem (.var 11)),
             .assign 8 (.copyOf (.elem (.var 4))),
-            .write 456 (.var 8),
+            .write 446 (.var 8),
             .ite (
-              .write 460 (.var 4)) (
+              .write 450 (.var 4)) (
               .skip)])]),
     .ite (
       .block [
-        .write 464 (.field (.field (.var 5))),
+        .write 454 (.field (.field (.var 5))),
         .assign 1 .scalar,
         .assign 12 (.field (.field (.var 0))),
         .loop [B, B, N, B, F, F, N, N, F, F, N, N, B] (
@@ -1069,10 +1035,10 @@ def op_remove_redundant_data (ix : Nat → Nat) : OpDef := ⟨"remove_redundant_
             .assign 3 (.elem (.var 12)),
             .ite (
               .block [
-                .write 468 (.field (.field (.var 5))),
+                .write 458 (.field (.field (.var 5))),
                 .assign 1 (.tuple [(.var 1), (.var 3)])]) (
               .skip)]),
-        .write 471 (.field (.field (.var 5))),
+        .write 461 (.field (.field (.var 5))),
         .assign 2 .scalar,
         .assign 13 (.field (.field (.var 0))),
         .loop [B, B, B, B, F, F, B, N, F, F, N, N, B, B] (
@@ -1080,15 +1046,15 @@ def op_remove_redundant_data (ix : Nat → Nat) : OpDef := ⟨"remove_redundant_
             .assign 6 (.elem (.var 13)),
             .ite (
               .block [
-                .write 475 (.field (.field (.var 5))),
+                .write 465 (.field (.field (.var 5))),
                 .assign 2 (.tuple [(.var 2), (.var 6)])]) (
               .skip)])]) (
       .skip),
     .ret (.var 5)]⟩
 def ct_remove_redundant_data : Contract := ⟨[B], F⟩
 
-/-- `concatenate_sequences` (sequences_lib.py:481)  params: sequences, sequence_durations
-variables: 0=sequences 1=sequence_durations 2=cat_seq 3=current_total_time 4=i 5=sequence 6=%it509_11 7=_r517 8=_r529
+/-- `concatenate_sequences` (sequences_lib.py:471)  params: sequences, sequence_durations
+variables: 0=sequences 1=sequence_durations 2=cat_seq 3=current_total_time 4=i 5=sequence 6=%it499_11 7=_r507 8=_r519
 -/
 def op_concatenate_sequences (ix : Nat → Nat) : OpDef := ⟨"concatenate_sequences", 2,
   .block [
@@ -1100,7 +1066,7 @@ def op_concatenate_sequences (ix : Nat → Nat) : OpDef := ⟨"concatenate_seque
     .assign 3 .scalar,
     .assign 2 .fresh,
     .assign 6 .scalar,
-    .loop [B, B, F, B, N, B, N, B] (
+    .loop [B, B, F, B, N, B, N, F] (
       .block [
         .assign 4 (.elem (.var 6)),
         .assign 5 (.elem (.var 0)),
@@ -1109,21 +1075,21 @@ def op_concatenate_sequences (ix : Nat → Nat) : OpDef := ⟨"concatenate_seque
           .skip),
         .ite (
           .block [
-            .callOp 517 7 (ix 9) [(.var 5), (.var 3)],
-            .write 517 (.var 2)]) (
-          .write 519 (.var 2)),
+            .callOp 507 7 (ix 7) [(.var 5), (.var 3)],
+            .write 507 (.var 2)]) (
+          .write 509 (.var 2)),
         .ite (
           .block [
             .assign 1 (.tuple [(.var 1), (.elem (.var 1))]),
             .assign 3 (.tuple [(.var 3), (.elem (.var 1))])]) (
           .assign 3 .scalar)]),
-    .write 527 (.var 2),
-    .callOp 529 8 (ix 21) [(.var 2)],
+    .write 517 (.var 2),
+    .callOp 519 8 (ix 19) [(.var 2)],
     .ret (.var 8)]⟩
 def ct_concatenate_sequences : Contract := ⟨[B, B], F⟩
 
-/-- `merge_sequences` (sequences_lib.py:532)  params: sequences
-variables: 0=sequences 1=cat_seq 2=seq 3=%it552_13 4=_acc558 5=seq@558 6=%it558_55 7=_r562
+/-- `merge_sequences` (sequences_lib.py:522)  params: sequences
+variables: 0=sequences 1=cat_seq 2=seq 3=%it542_13 4=_acc548 5=seq@548 6=%it548_55 7=_r552
 -/
 def op_merge_sequences (ix : Nat → Nat) : OpDef := ⟨"merge_sequences", 1,
   .block [
@@ -1133,22 +1099,22 @@ def op_merge_sequences (ix : Nat → Nat) : OpDef := ⟨"merge_sequences", 1,
     .loop [B, F, B, B] (
       .block [
         .assign 2 (.elem (.var 3)),
-        .write 553 (.var 1)]),
+        .write 543 (.var 1)]),
     .ite (
       .block [
         .assign 4 .scalar,
         .assign 6 (.var 0),
         .loop [B, F, B, B, N, B, B] (
           .assign 5 (.elem (.var 6))),
-        .write 558 (.var 1)]) (
+        .write 548 (.var 1)]) (
       .skip),
-    .write 561 (.var 1),
-    .callOp 562 7 (ix 21) [(.var 1)],
+    .write 551 (.var 1),
+    .callOp 552 7 (ix 19) [(.var 1)],
     .ret (.var 7)]⟩
 def ct_merge_sequences : Contract := ⟨[B], F⟩
 
-/-- `repeat_sequence_to_duration` (sequences_lib.py:565)  params: sequence, duration, sequence_duration
-variables: 0=sequence 1=duration 2=sequence_duration 3=num_repeats 4=repeated_ns 5=trimmed 6=_r579 7=_r583
+/-- `repeat_sequence_to_duration` (sequences_lib.py:555)  params: sequence, duration, sequence_duration
+variables: 0=sequence 1=duration 2=sequence_duration 3=num_repeats 4=repeated_ns 5=trimmed 6=_r569 7=_r573
 -/
 def op_repeat_sequence_to_duration (ix : Nat → Nat) : OpDef := ⟨"repeat_sequence_to_duration", 3,
   .block [
@@ -1159,16 +1125,16 @@ def op_repeat_sequence_to_duration (ix : Nat → Nat) : OpDef := ⟨"repeat_sequ
       .assign 2 .scalar) (
       .skip),
     .assign 3 .scalar,
-    .callOp 579 6 (ix 22) [(.tuple [(.var 0), (.var 3)]), (.tuple [(.var 2), (.var 3)])],
+    .callOp 569 6 (ix 20) [(.tuple [(.var 0), (.var 3)]), (.tuple [(.var 2), (.var 3)])],
     .assign 4 (.var 6),
-    .callOp 583 7 (ix 4) [(.var 4), .scalar, (.var 1), .scalar],
+    .callOp 573 7 (ix 3) [(.var 4), .scalar, (.var 1), .scalar],
     .assign 5 (.var 7),
-    .write 584 (.var 5),
+    .write 574 (.var 5),
     .ret (.var 5)]⟩
 def ct_repeat_sequence_to_duration : Contract := ⟨[B, B, B], F⟩
 
-/-- `expand_section_groups.sections_in_group` (sequences_lib.py:624)  params: section_group
-variables: 0=section_group 1=field 2=section 3=sections 4=%it626_19 5=_r631
+/-- `expand_section_groups.sections_in_group` (sequences_lib.py:614)  params: section_group
+variables: 0=section_group 1=field 2=section 3=sections 4=%it616_19 5=_r621
 -/
 def op_expand_section_groups_sections_in_group (ix : Nat → Nat) : OpDef := ⟨"expand_section_groups.sections_in_group", 1,
   .block [
@@ -1183,14 +1149,14 @@ def op_expand_section_groups_sections_in_group (ix : Nat → Nat) : OpDef := ⟨
           .skip) (
           .ite (
             .block [
-              .callOp 631 5 (ix 25) [(.field (.var 2))],
+              .callOp 621 5 (ix 23) [(.field (.var 2))],
               .assign 3 (.tuple [(.var 3), (.var 5)])]) (
             .skip))]),
     .ret (.var 3)]⟩
 def ct_expand_section_groups_sections_in_group : Contract := ⟨[B], N⟩
 
-/-- `expand_section_groups` (sequences_lib.py:588)  params: sequence
-variables: 0=sequence 1=end_time 2=i 3=section_durations 4=section_group 5=section_id 6=sections 7=sections_to_concat 8=start_time 9=subsequence 10=%it604_11 11=_r612 12=_t620 13=_t621 14=%it635_23 15=_r636 16=_acc639 17=i@639 18=%it639_28 19=_acc640 20=i@640 21=%it640_37 22=_r638
+/-- `expand_section_groups` (sequences_lib.py:578)  params: sequence
+variables: 0=sequence 1=end_time 2=i 3=section_durations 4=section_group 5=section_id 6=sections 7=sections_to_concat 8=start_time 9=subsequence 10=%it594_11 11=_r602 12=_t610 13=_t611 14=%it625_23 15=_r626 16=_acc629 17=i@629 18=%it629_28 19=_acc630 20=i@630 21=%it630_37 22=_r628
 -/
 def op_expand_section_groups (ix : Nat → Nat) : OpDef := ⟨"expand_section_groups", 1,
   .block [
@@ -1209,11 +1175,11 @@ def op_expand_section_groups (ix : Nat → Nat) : OpDef := ⟨"expand_section_gr
         .ite (
           .assign 1 .scalar) (
           .assign 1 .scalar),
-        .callOp 612 11 (ix 4) [(.var 0), (.var 8), (.var 1), .scalar],
+        .callOp 602 11 (ix 3) [(.var 0), (.var 8), (.var 1), .scalar],
         .assign 9 (.var 11),
-        .write 614 (.field (.var 9)),
-        .write 617 (.field (.var 9)),
-        .write 618 (.field (.var 9)),
+        .write 604 (.field (.var 9)),
+        .write 607 (.field (.var 9)),
+        .write 608 (.field (.var 9)),
         .assign 12 (.var 9),
         .assign 0 (.tuple [(.var 0), (.var 12)]),
         .assign 6 (.tuple [(.var 6), (.var 12)]),
@@ -1225,7 +1191,7 @@ def op_expand_section_groups (ix : Nat → Nat) : OpDef := ⟨"expand_section_gr
     .loop [B, N, N, N, B, N, F, N, N, F, N, F, F, N, B, N] (
       .block [
         .assign 4 (.elem (.var 14)),
-        .callOp 636 15 (ix 25) [(.var 4)],
+        .callOp 626 15 (ix 23) [(.var 4)],
         .assign 2 (.tuple [(.var 2), (.var 15)]),
         .assign 7 (.tuple [(.var 7), (.var 15)])]),
     .assign 16 .scalar,
@@ -1240,12 +1206,12 @@ def op_expand_section_groups (ix : Nat → Nat) : OpDef := ⟨"expand_section_gr
       .block [
         .assign 20 (.elem (.var 21)),
         .assign 19 (.tuple [(.var 19), (.elem (.var 3))])]),
-    .callOp 638 22 (ix 22) [(.var 16), (.var 19)],
+    .callOp 628 22 (ix 20) [(.var 16), (.var 19)],
     .ret (.var 22)]⟩
 def ct_expand_section_groups : Contract := ⟨[B], F⟩
 
-/-- `adjust_notesequence_times` (sequences_lib.py:1384)  params: ns, time_func, minimum_duration
-variables: 0=ns 1=time_func 2=minimum_duration 3=adjusted_note 4=adjusted_ns 5=end_time 6=event 7=events 8=note 9=skipped_notes 10=start_time 11=time 12=%it1421_14 13=%it1474_15
+/-- `adjust_notesequence_times` (sequences_lib.py:1382)  params: ns, time_func, minimum_duration
+variables: 0=ns 1=time_func 2=minimum_duration 3=adjusted_note 4=adjusted_ns 5=end_time 6=event 7=events 8=note 9=skipped_notes 10=start_time 11=time 12=%it1419_14 13=%it1472_15
 -/
 def op_adjust_notesequence_times (ix : Nat → Nat) : OpDef := ⟨"adjust_notesequence_times", 3,
   .block [
@@ -1253,9 +1219,9 @@ def op_adjust_notesequence_times (ix : Nat → Nat) : OpDef := ⟨"adjust_notese
     .assign 1 (.param 1),
     .assign 2 (.param 2),
     .assign 4 (.copyOf (.var 0)),
-    .write 1418 (.var 4),
+    .write 1416 (.var 4),
     .assign 9 .scalar,
-    .write 1420 (.field (.var 4)),
+    .write 1418 (.field (.var 4)),
     .assign 12 (.field (.var 0)),
     .loop [B, B, B, F, F, B, N, N, B, N, N, N, B] (
       .block [
@@ -1282,13 +1248,13 @@ def op_adjust_notesequence_times (ix : Nat → Nat) : OpDef := ⟨"adjust_notese
               .raise) (
               .skip),
             .ite (
-              .write 1458 (.var 4)) (
+              .write 1456 (.var 4)) (
               .skip),
-            .write 1460 (.field (.var 4)),
+            .write 1458 (.field (.var 4)),
             .assign 3 (.elem (.field (.var 4))),
-            .write 1461 (.var 3),
-            .write 1462 (.var 3),
-            .write 1463 (.var 3)])]),
+            .write 1459 (.var 3),
+            .write 1460 (.var 3),
+            .write 1461 (.var 3)])]),
     .assign 7 (.tuple [(.field (.var 4)), (.field (.var 4)), (.field (.var 4)), (.field (.var 4)), (.field (.var 4)), (.field (.var 4))]),
     .assign 13 (.var 7),
     .loop [B, B, B, F, F, B, F, F, B, N, N, N, B, F] (
@@ -1298,12 +1264,12 @@ def op_adjust_notesequence_times (ix : Nat → Nat) : OpDef := ⟨"adjust_notese
         .ite (
           .raise) (
           .skip),
-        .write 1480 (.var 6)]),
-    .write 1484 (.field (.var 4)),
+        .write 1478 (.var 6)]),
+    .write 1482 (.field (.var 4)),
     .ret (.tuple [(.var 4), (.var 9)])]⟩
 def ct_adjust_notesequence_times : Contract := ⟨[B, B, B], F⟩
 
-/-- `rectify_beats.time_func` (sequences_lib.py:1530)  params: t, unique_beat_times, rectified_beat_times, sequence
+/-- `rectify_beats.time_func` (sequences_lib.py:1528)  params: t, unique_beat_times, rectified_beat_times, sequence
 variables: 0=t 1=unique_beat_times 2=rectified_beat_times 3=sequence
 -/
 def op_rectify_beats_time_func (ix : Nat → Nat) : OpDef := ⟨"rectify_beats.time_func", 4,
@@ -1315,14 +1281,14 @@ def op_rectify_beats_time_func (ix : Nat → Nat) : OpDef := ⟨"rectify_beats.t
     .ret .scalar]⟩
 def ct_rectify_beats_time_func : Contract := ⟨[B, B, B, B], N⟩
 
-/-- `rectify_beats` (sequences_lib.py:1489)  params: sequence, beats_per_minute
-variables: 0=sequence 1=beats_per_minute 2=_ 3=beat_times 4=num_beats 5=rectified_beat_times 6=rectified_sequence 7=seconds_per_beat 8=sorted_beat_times 9=unique_beat_times 10=_r1506 11=_acc1510 12=ta@1510 13=%it1510_24 14=_acc1521 15=i@1521 16=%it1521_36 17=_clo1534 18=_r1534 19=_t1534
+/-- `rectify_beats` (sequences_lib.py:1487)  params: sequence, beats_per_minute
+variables: 0=sequence 1=beats_per_minute 2=_ 3=beat_times 4=num_beats 5=rectified_beat_times 6=rectified_sequence 7=seconds_per_beat 8=sorted_beat_times 9=unique_beat_times 10=_r1504 11=_acc1508 12=ta@1508 13=%it1508_24 14=_acc1519 15=i@1519 16=%it1519_36 17=_clo1532 18=_r1532 19=_t1532
 -/
 def op_rectify_beats (ix : Nat → Nat) : OpDef := ⟨"rectify_beats", 2,
   .block [
     .assign 0 (.param 0),
     .assign 1 (.param 1),
-    .callOp 1506 10 (ix 0) [(.var 0)],
+    .callOp 1504 10 (ix 0) [(.var 0)],
     .ite (
       .raise) (
       .skip),
@@ -1348,124 +1314,124 @@ def op_rectify_beats (ix : Nat → Nat) : OpDef := ⟨"rectify_beats", 2,
     .assign 7 (.var 1),
     .assign 5 (.var 7),
     .loop [B, B, N, N, N, B, N, B, N, N, N, N, B, B, N, N, N] (
-      .callOp 1534 17 (ix 28) [.scalar, (.var 9), (.var 5), (.var 0)]),
-    .callOp 1534 18 (ix 27) [(.var 0), .scalar, .scalar],
+      .callOp 1532 17 (ix 26) [.scalar, (.var 9), (.var 5), (.var 0)]),
+    .callOp 1532 18 (ix 25) [(.var 0), .scalar, .scalar],
     .assign 19 (.var 18),
     .assign 6 (.proj (.var 19) 0),
     .assign 2 (.proj (.var 19) 1),
-    .write 1538 (.field (.var 6)),
-    .write 1539 (.field (.var 6)),
+    .write 1536 (.field (.var 6)),
+    .write 1537 (.field (.var 6)),
     .ret (.var 6)]⟩
 def ct_rectify_beats : Contract := ⟨[B, B], F⟩
 
-/-- program slice of `trim_note_sequence`: is_quantized_sequence, _copy_note_sequence, trim_note_sequence -/
+/-- program slice of `trim_note_sequence`: is_quantized_sequence, trim_note_sequence -/
 def ir_trim_note_sequence : Prog :=
-  let ix : Nat → Nat := fun g => match g with | 0 => 0 | 1 => 1 | 2 => 2 | _ => 99999
-  ⟨[op_is_quantized_sequence ix, op__copy_note_sequence ix, op_trim_note_sequence ix], [ct_is_quantized_sequence, ct__copy_note_sequence, ct_trim_note_sequence], 2⟩
+  let ix : Nat → Nat := fun g => match g with | 0 => 0 | 1 => 1 | _ => 99999
+  ⟨[op_is_quantized_sequence ix, op_trim_note_sequence ix], [ct_is_quantized_sequence, ct_trim_note_sequence], 1⟩
 
-/-- program slice of `_extract_subsequences`: is_quantized_sequence, _copy_note_sequence, _extract_subsequences -/
+/-- program slice of `_extract_subsequences`: is_quantized_sequence, _extract_subsequences -/
 def ir__extract_subsequences : Prog :=
-  let ix : Nat → Nat := fun g => match g with | 0 => 0 | 1 => 1 | 3 => 2 | _ => 99999
-  ⟨[op_is_quantized_sequence ix, op__copy_note_sequence ix, op__extract_subsequences ix], [ct_is_quantized_sequence, ct__copy_note_sequence, ct__extract_subsequences], 2⟩
+  let ix : Nat → Nat := fun g => match g with | 0 => 0 | 2 => 1 | _ => 99999
+  ⟨[op_is_quantized_sequence ix, op__extract_subsequences ix], [ct_is_quantized_sequence, ct__extract_subsequences], 1⟩
 
-/-- program slice of `extract_subsequence`: is_quantized_sequence, _copy_note_sequence, _extract_subsequences, extract_subsequence -/
+/-- program slice of `extract_subsequence`: is_quantized_sequence, _extract_subsequences, extract_subsequence -/
 def ir_extract_subsequence : Prog :=
-  let ix : Nat → Nat := fun g => match g with | 0 => 0 | 1 => 1 | 3 => 2 | 4 => 3 | _ => 99999
-  ⟨[op_is_quantized_sequence ix, op__copy_note_sequence ix, op__extract_subsequences ix, op_extract_subsequence ix], [ct_is_quantized_sequence, ct__copy_note_sequence, ct__extract_subsequences, ct_extract_subsequence], 3⟩
+  let ix : Nat → Nat := fun g => match g with | 0 => 0 | 2 => 1 | 3 => 2 | _ => 99999
+  ⟨[op_is_quantized_sequence ix, op__extract_subsequences ix, op_extract_subsequence ix], [ct_is_quantized_sequence, ct__extract_subsequences, ct_extract_subsequence], 2⟩
 
-/-- program slice of `split_note_sequence`: is_quantized_sequence, _copy_note_sequence, _extract_subsequences, split_note_sequence -/
+/-- program slice of `split_note_sequence`: is_quantized_sequence, _extract_subsequences, split_note_sequence -/
 def ir_split_note_sequence : Prog :=
-  let ix : Nat → Nat := fun g => match g with | 0 => 0 | 1 => 1 | 3 => 2 | 5 => 3 | _ => 99999
-  ⟨[op_is_quantized_sequence ix, op__copy_note_sequence ix, op__extract_subsequences ix, op_split_note_sequence ix], [ct_is_quantized_sequence, ct__copy_note_sequence, ct__extract_subsequences, ct_split_note_sequence], 3⟩
+  let ix : Nat → Nat := fun g => match g with | 0 => 0 | 2 => 1 | 4 => 2 | _ => 99999
+  ⟨[op_is_quantized_sequence ix, op__extract_subsequences ix, op_split_note_sequence ix], [ct_is_quantized_sequence, ct__extract_subsequences, ct_split_note_sequence], 2⟩
 
-/-- program slice of `split_note_sequence_on_time_changes`: is_quantized_sequence, _copy_note_sequence, _extract_subsequences, split_note_sequence_on_time_changes -/
+/-- program slice of `split_note_sequence_on_time_changes`: is_quantized_sequence, _extract_subsequences, split_note_sequence_on_time_changes -/
 def ir_split_note_sequence_on_time_changes : Prog :=
-  let ix : Nat → Nat := fun g => match g with | 0 => 0 | 1 => 1 | 3 => 2 | 6 => 3 | _ => 99999
-  ⟨[op_is_quantized_sequence ix, op__copy_note_sequence ix, op__extract_subsequences ix, op_split_note_sequence_on_time_changes ix], [ct_is_quantized_sequence, ct__copy_note_sequence, ct__extract_subsequences, ct_split_note_sequence_on_time_changes], 3⟩
+  let ix : Nat → Nat := fun g => match g with | 0 => 0 | 2 => 1 | 5 => 2 | _ => 99999
+  ⟨[op_is_quantized_sequence ix, op__extract_subsequences ix, op_split_note_sequence_on_time_changes ix], [ct_is_quantized_sequence, ct__extract_subsequences, ct_split_note_sequence_on_time_changes], 2⟩
 
-/-- program slice of `split_note_sequence_on_silence`: is_quantized_sequence, _copy_note_sequence, _extract_subsequences, split_note_sequence_on_silence -/
+/-- program slice of `split_note_sequence_on_silence`: is_quantized_sequence, _extract_subsequences, split_note_sequence_on_silence -/
 def ir_split_note_sequence_on_silence : Prog :=
-  let ix : Nat → Nat := fun g => match g with | 0 => 0 | 1 => 1 | 3 => 2 | 7 => 3 | _ => 99999
-  ⟨[op_is_quantized_sequence ix, op__copy_note_sequence ix, op__extract_subsequences ix, op_split_note_sequence_on_silence ix], [ct_is_quantized_sequence, ct__copy_note_sequence, ct__extract_subsequences, ct_split_note_sequence_on_silence], 3⟩
+  let ix : Nat → Nat := fun g => match g with | 0 => 0 | 2 => 1 | 6 => 2 | _ => 99999
+  ⟨[op_is_quantized_sequence ix, op__extract_subsequences ix, op_split_note_sequence_on_silence ix], [ct_is_quantized_sequence, ct__extract_subsequences, ct_split_note_sequence_on_silence], 2⟩
 
-/-- program slice of `shift_sequence_times`: is_quantized_sequence, _copy_note_sequence, _timed_event_lists, shift_sequence_times -/
+/-- program slice of `shift_sequence_times`: is_quantized_sequence, shift_sequence_times -/
 def ir_shift_sequence_times : Prog :=
-  let ix : Nat → Nat := fun g => match g with | 0 => 0 | 1 => 1 | 8 => 2 | 9 => 3 | _ => 99999
-  ⟨[op_is_quantized_sequence ix, op__copy_note_sequence ix, op__timed_event_lists ix, op_shift_sequence_times ix], [ct_is_quantized_sequence, ct__copy_note_sequence, ct__timed_event_lists, ct_shift_sequence_times], 3⟩
+  let ix : Nat → Nat := fun g => match g with | 0 => 0 | 7 => 1 | _ => 99999
+  ⟨[op_is_quantized_sequence ix, op_shift_sequence_times ix], [ct_is_quantized_sequence, ct_shift_sequence_times], 1⟩
 
-/-- program slice of `stretch_note_sequence`: is_quantized_sequence, _copy_note_sequence, _timed_event_lists, stretch_note_sequence -/
+/-- program slice of `stretch_note_sequence`: is_quantized_sequence, stretch_note_sequence -/
 def ir_stretch_note_sequence : Prog :=
-  let ix : Nat → Nat := fun g => match g with | 0 => 0 | 1 => 1 | 8 => 2 | 10 => 3 | _ => 99999
-  ⟨[op_is_quantized_sequence ix, op__copy_note_sequence ix, op__timed_event_lists ix, op_stretch_note_sequence ix], [ct_is_quantized_sequence, ct__copy_note_sequence, ct__timed_event_lists, ct_stretch_note_sequence], 3⟩
+  let ix : Nat → Nat := fun g => match g with | 0 => 0 | 8 => 1 | _ => 99999
+  ⟨[op_is_quantized_sequence ix, op_stretch_note_sequence ix], [ct_is_quantized_sequence, ct_stretch_note_sequence], 1⟩
 
-/-- program slice of `stretch_note_sequence__in_place`: is_quantized_sequence, _timed_event_lists, stretch_note_sequence__in_place -/
+/-- program slice of `stretch_note_sequence__in_place`: is_quantized_sequence, stretch_note_sequence__in_place -/
 def ir_stretch_note_sequence__in_place : Prog :=
-  let ix : Nat → Nat := fun g => match g with | 0 => 0 | 8 => 1 | 11 => 2 | _ => 99999
-  ⟨[op_is_quantized_sequence ix, op__timed_event_lists ix, op_stretch_note_sequence__in_place ix], [ct_is_quantized_sequence, ct__timed_event_lists, ct_stretch_note_sequence__in_place], 2⟩
+  let ix : Nat → Nat := fun g => match g with | 0 => 0 | 9 => 1 | _ => 99999
+  ⟨[op_is_quantized_sequence ix, op_stretch_note_sequence__in_place ix], [ct_is_quantized_sequence, ct_stretch_note_sequence__in_place], 1⟩
 
-/-- program slice of `transpose_note_sequence`: _copy_note_sequence, transpose_note_sequence -/
+/-- program slice of `transpose_note_sequence`: transpose_note_sequence -/
 def ir_transpose_note_sequence : Prog :=
-  let ix : Nat → Nat := fun g => match g with | 1 => 0 | 12 => 1 | _ => 99999
-  ⟨[op__copy_note_sequence ix, op_transpose_note_sequence ix], [ct__copy_note_sequence, ct_transpose_note_sequence], 1⟩
+  let ix : Nat → Nat := fun g => match g with | 10 => 0 | _ => 99999
+  ⟨[op_transpose_note_sequence ix], [ct_transpose_note_sequence], 0⟩
 
 /-- program slice of `transpose_note_sequence__in_place`: transpose_note_sequence__in_place -/
 def ir_transpose_note_sequence__in_place : Prog :=
-  let ix : Nat → Nat := fun g => match g with | 13 => 0 | _ => 99999
+  let ix : Nat → Nat := fun g => match g with | 11 => 0 | _ => 99999
   ⟨[op_transpose_note_sequence__in_place ix], [ct_transpose_note_sequence__in_place], 0⟩
 
 /-- program slice of `_quantize_notes`: quantize_to_step, _quantize_notes -/
 def ir__quantize_notes : Prog :=
-  let ix : Nat → Nat := fun g => match g with | 14 => 0 | 15 => 1 | _ => 99999
+  let ix : Nat → Nat := fun g => match g with | 12 => 0 | 13 => 1 | _ => 99999
   ⟨[op_quantize_to_step ix, op__quantize_notes ix], [ct_quantize_to_step, ct__quantize_notes], 1⟩
 
 /-- program slice of `quantize_note_sequence`: _is_power_of_2, steps_per_quarter_to_steps_per_second, quantize_to_step, _quantize_notes, quantize_note_sequence -/
 def ir_quantize_note_sequence : Prog :=
-  let ix : Nat → Nat := fun g => match g with | 14 => 2 | 15 => 3 | 16 => 0 | 17 => 1 | 18 => 4 | _ => 99999
+  let ix : Nat → Nat := fun g => match g with | 12 => 2 | 13 => 3 | 14 => 0 | 15 => 1 | 16 => 4 | _ => 99999
   ⟨[op__is_power_of_2 ix, op_steps_per_quarter_to_steps_per_second ix, op_quantize_to_step ix, op__quantize_notes ix, op_quantize_note_sequence ix], [ct__is_power_of_2, ct_steps_per_quarter_to_steps_per_second, ct_quantize_to_step, ct__quantize_notes, ct_quantize_note_sequence], 4⟩
 
 /-- program slice of `quantize_note_sequence_absolute`: quantize_to_step, _quantize_notes, quantize_note_sequence_absolute -/
 def ir_quantize_note_sequence_absolute : Prog :=
-  let ix : Nat → Nat := fun g => match g with | 14 => 0 | 15 => 1 | 19 => 2 | _ => 99999
+  let ix : Nat → Nat := fun g => match g with | 12 => 0 | 13 => 1 | 17 => 2 | _ => 99999
   ⟨[op_quantize_to_step ix, op__quantize_notes ix, op_quantize_note_sequence_absolute ix], [ct_quantize_to_step, ct__quantize_notes, ct_quantize_note_sequence_absolute], 2⟩
 
 /-- program slice of `apply_sustain_control_changes`: is_quantized_sequence, apply_sustain_control_changes -/
 def ir_apply_sustain_control_changes : Prog :=
-  let ix : Nat → Nat := fun g => match g with | 0 => 0 | 20 => 1 | _ => 99999
+  let ix : Nat → Nat := fun g => match g with | 0 => 0 | 18 => 1 | _ => 99999
   ⟨[op_is_quantized_sequence ix, op_apply_sustain_control_changes ix], [ct_is_quantized_sequence, ct_apply_sustain_control_changes], 1⟩
 
-/-- program slice of `concatenate_sequences`: is_quantized_sequence, _copy_note_sequence, _timed_event_lists, shift_sequence_times, remove_redundant_data, concatenate_sequences -/
+/-- program slice of `concatenate_sequences`: is_quantized_sequence, shift_sequence_times, remove_redundant_data, concatenate_sequences -/
 def ir_concatenate_sequences : Prog :=
-  let ix : Nat → Nat := fun g => match g with | 0 => 0 | 1 => 1 | 8 => 2 | 9 => 3 | 21 => 4 | 22 => 5 | _ => 99999
-  ⟨[op_is_quantized_sequence ix, op__copy_note_sequence ix, op__timed_event_lists ix, op_shift_sequence_times ix, op_remove_redundant_data ix, op_concatenate_sequences ix], [ct_is_quantized_sequence, ct__copy_note_sequence, ct__timed_event_lists, ct_shift_sequence_times, ct_remove_redundant_data, ct_concatenate_sequences], 5⟩
+  let ix : Nat → Nat := fun g => match g with | 0 => 0 | 7 => 1 | 19 => 2 | 20 => 3 | _ => 99999
+  ⟨[op_is_quantized_sequence ix, op_shift_sequence_times ix, op_remove_redundant_data ix, op_concatenate_sequences ix], [ct_is_quantized_sequence, ct_shift_sequence_times, ct_remove_redundant_data, ct_concatenate_sequences], 3⟩
 
 /-- program slice of `merge_sequences`: remove_redundant_data, merge_sequences -/
 def ir_merge_sequences : Prog :=
-  let ix : Nat → Nat := fun g => match g with | 21 => 0 | 23 => 1 | _ => 99999
+  let ix : Nat → Nat := fun g => match g with | 19 => 0 | 21 => 1 | _ => 99999
   ⟨[op_remove_redundant_data ix, op_merge_sequences ix], [ct_remove_redundant_data, ct_merge_sequences], 1⟩
 
-/-- program slice of `repeat_sequence_to_duration`: is_quantized_sequence, _copy_note_sequence, _timed_event_lists, shift_sequence_times, remove_redundant_data, concatenate_sequences, _extract_subsequences, extract_subsequence, repeat_sequence_to_duration -/
+/-- program slice of `repeat_sequence_to_duration`: is_quantized_sequence, shift_sequence_times, remove_redundant_data, concatenate_sequences, _extract_subsequences, extract_subsequence, repeat_sequence_to_duration -/
 def ir_repeat_sequence_to_duration : Prog :=
-  let ix : Nat → Nat := fun g => match g with | 0 => 0 | 1 => 1 | 3 => 6 | 4 => 7 | 8 => 2 | 9 => 3 | 21 => 4 | 22 => 5 | 24 => 8 | _ => 99999
-  ⟨[op_is_quantized_sequence ix, op__copy_note_sequence ix, op__timed_event_lists ix, op_shift_sequence_times ix, op_remove_redundant_data ix, op_concatenate_sequences ix, op__extract_subsequences ix, op_extract_subsequence ix, op_repeat_sequence_to_duration ix], [ct_is_quantized_sequence, ct__copy_note_sequence, ct__timed_event_lists, ct_shift_sequence_times, ct_remove_redundant_data, ct_concatenate_sequences, ct__extract_subsequences, ct_extract_subsequence, ct_repeat_sequence_to_duration], 8⟩
+  let ix : Nat → Nat := fun g => match g with | 0 => 0 | 2 => 4 | 3 => 5 | 7 => 1 | 19 => 2 | 20 => 3 | 22 => 6 | _ => 99999
+  ⟨[op_is_quantized_sequence ix, op_shift_sequence_times ix, op_remove_redundant_data ix, op_concatenate_sequences ix, op__extract_subsequences ix, op_extract_subsequence ix, op_repeat_sequence_to_duration ix], [ct_is_quantized_sequence, ct_shift_sequence_times, ct_remove_redundant_data, ct_concatenate_sequences, ct__extract_subsequences, ct_extract_subsequence, ct_repeat_sequence_to_duration], 6⟩
 
-/-- program slice of `expand_section_groups`: is_quantized_sequence, _copy_note_sequence, _extract_subsequences, extract_subsequence, expand_section_groups.sections_in_group, _timed_event_lists, shift_sequence_times, remove_redundant_data, concatenate_sequences, expand_section_groups -/
+/-- program slice of `expand_section_groups`: is_quantized_sequence, _extract_subsequences, extract_subsequence, expand_section_groups.sections_in_group, shift_sequence_times, remove_redundant_data, concatenate_sequences, expand_section_groups -/
 def ir_expand_section_groups : Prog :=
-  let ix : Nat → Nat := fun g => match g with | 0 => 0 | 1 => 1 | 3 => 2 | 4 => 3 | 8 => 5 | 9 => 6 | 21 => 7 | 22 => 8 | 25 => 4 | 26 => 9 | _ => 99999
-  ⟨[op_is_quantized_sequence ix, op__copy_note_sequence ix, op__extract_subsequences ix, op_extract_subsequence ix, op_expand_section_groups_sections_in_group ix, op__timed_event_lists ix, op_shift_sequence_times ix, op_remove_redundant_data ix, op_concatenate_sequences ix, op_expand_section_groups ix], [ct_is_quantized_sequence, ct__copy_note_sequence, ct__extract_subsequences, ct_extract_subsequence, ct_expand_section_groups_sections_in_group, ct__timed_event_lists, ct_shift_sequence_times, ct_remove_redundant_data, ct_concatenate_sequences, ct_expand_section_groups], 9⟩
+  let ix : Nat → Nat := fun g => match g with | 0 => 0 | 2 => 1 | 3 => 2 | 7 => 4 | 19 => 5 | 20 => 6 | 23 => 3 | 24 => 7 | _ => 99999
+  ⟨[op_is_quantized_sequence ix, op__extract_subsequences ix, op_extract_subsequence ix, op_expand_section_groups_sections_in_group ix, op_shift_sequence_times ix, op_remove_redundant_data ix, op_concatenate_sequences ix, op_expand_section_groups ix], [ct_is_quantized_sequence, ct__extract_subsequences, ct_extract_subsequence, ct_expand_section_groups_sections_in_group, ct_shift_sequence_times, ct_remove_redundant_data, ct_concatenate_sequences, ct_expand_section_groups], 7⟩
 
 /-- program slice of `remove_redundant_data`: remove_redundant_data -/
 def ir_remove_redundant_data : Prog :=
-  let ix : Nat → Nat := fun g => match g with | 21 => 0 | _ => 99999
+  let ix : Nat → Nat := fun g => match g with | 19 => 0 | _ => 99999
   ⟨[op_remove_redundant_data ix], [ct_remove_redundant_data], 0⟩
 
 /-- program slice of `adjust_notesequence_times`: adjust_notesequence_times -/
 def ir_adjust_notesequence_times : Prog :=
-  let ix : Nat → Nat := fun g => match g with | 27 => 0 | _ => 99999
+  let ix : Nat → Nat := fun g => match g with | 25 => 0 | _ => 99999
   ⟨[op_adjust_notesequence_times ix], [ct_adjust_notesequence_times], 0⟩
 
 /-- program slice of `rectify_beats`: is_quantized_sequence, rectify_beats.time_func, adjust_notesequence_times, rectify_beats -/
 def ir_rectify_beats : Prog :=
-  let ix : Nat → Nat := fun g => match g with | 0 => 0 | 27 => 2 | 28 => 1 | 29 => 3 | _ => 99999
+  let ix : Nat → Nat := fun g => match g with | 0 => 0 | 25 => 2 | 26 => 1 | 27 => 3 | _ => 99999
   ⟨[op_is_quantized_sequence ix, op_rectify_beats_time_func ix, op_adjust_notesequence_times ix, op_rectify_beats ix], [ct_is_quantized_sequence, ct_rectify_beats_time_func, ct_adjust_notesequence_times, ct_rectify_beats], 3⟩
 
 def allProgs : List (String × Prog) := [("trim_note_sequence", ir_trim_note_sequence), ("_extract_subsequences", ir__extract_subsequences), ("extract_subsequence", ir_extract_subsequence), ("split_note_sequence", ir_split_note_sequence), ("split_note_sequence_on_time_changes", ir_split_note_sequence_on_time_changes), ("split_note_sequence_on_silence", ir_split_note_sequence_on_silence), ("shift_sequence_times", ir_shift_sequence_times), ("stretch_note_sequence", ir_stretch_note_sequence), ("stretch_note_sequence__in_place", ir_stretch_note_sequence__in_place), ("transpose_note_sequence", ir_transpose_note_sequence), ("transpose_note_sequence__in_place", ir_transpose_note_sequence__in_place), ("_quantize_notes", ir__quantize_notes), ("quantize_note_sequence", ir_quantize_note_sequence), ("quantize_note_sequence_absolute", ir_quantize_note_sequence_absolute), ("apply_sustain_control_changes", ir_apply_sustain_control_changes), ("concatenate_sequences", ir_concatenate_sequences), ("merge_sequences", ir_merge_sequences), ("repeat_sequence_to_duration", ir_repeat_sequence_to_duration), ("expand_section_groups", ir_expand_section_groups), ("remove_redundant_data", ir_remove_redundant_data), ("adjust_notesequence_times", ir_adjust_notesequence_times), ("rectify_beats", ir_rectify_beats)]
